@@ -1,5 +1,1363 @@
-(* StorageProofs.v — lemmas about Model/Storage.v *)
-From Pyro Require Import Model.Base Model.Tree Model.Segment Model.Timeline Model.Storage.
+(* StorageProofs.v — lemmas about Model/Storage.v (plain-map storage): the tree store mirrors the exact
+   bucket store of Model/Segment.v stack by stack (C01), metadata, delete/retention (C11). *)
+From Pyro Require Import Model.Base Model.Tree Model.Segment Model.Timeline Model.Storage
+  Proofs.TreeProofs Proofs.SegmentProofs Proofs.SegStruct Proofs.SegGet Proofs.SegStore Proofs.SegInv Proofs.SegRead.
+From Coq Require Import ZifyN ZifyNat ZifyBool Lia.
+Local Open Scope Z_scope.
 
 Lemma st_get_readonly : forall rt sel f u st, fst (st_step rt st (OpGet sel f u)) = st.
 Proof. reflexivity. Qed.
+
+(* ------------------------------------------------------------------------------------------ *)
+(* keys of the tree store                                                                      *)
+
+Lemma tkey_eqb_true x y : tkey_eqb x y = true <-> x = y.
+Proof.
+  destruct x as [[k1 l1] t1], y as [[k2 l2] t2]. unfold tkey_eqb.
+  rewrite !andb_true_iff, beqb_true, Nat.eqb_eq, Z.eqb_eq. split.
+  - intros [[-> ->] ->]. reflexivity.
+  - intros [= -> -> ->]. auto.
+Qed.
+
+Lemma tkey_eqb_refl x : tkey_eqb x x = true.
+Proof. apply tkey_eqb_true. reflexivity. Qed.
+
+Lemma tkey_eqb_false x y : x <> y -> tkey_eqb x y = false.
+Proof. intros H. destruct (tkey_eqb x y) eqn:E; [|reflexivity]. apply tkey_eqb_true in E. contradiction. Qed.
+
+Lemma tree_lookup_store k v l k' :
+  tree_lookup k' (tree_store k v l) = if tkey_eqb k' k then Some v else tree_lookup k' l.
+Proof.
+  induction l as [|[k0 t0] l IH]; cbn [tree_store tree_lookup].
+  - destruct (tkey_eqb k' k); reflexivity.
+  - destruct (tkey_eqb k k0) eqn:E.
+    + apply tkey_eqb_true in E. subst k0. cbn [tree_lookup]. destruct (tkey_eqb k' k); reflexivity.
+    + cbn [tree_lookup]. rewrite IH. destruct (tkey_eqb k' k0) eqn:E0; [|reflexivity].
+      apply tkey_eqb_true in E0. subst k0. destruct (tkey_eqb k' k) eqn:E1; [|reflexivity].
+      apply tkey_eqb_true in E1. subst k'. rewrite tkey_eqb_refl in E. discriminate.
+Qed.
+
+Lemma tree_get_store k v l k' :
+  tree_get k' (tree_store k v l) = if tkey_eqb k' k then v else tree_get k' l.
+Proof. unfold tree_get. rewrite tree_lookup_store. destruct (tkey_eqb k' k); reflexivity. Qed.
+
+Lemma tree_lookup_remove k l k' :
+  tree_lookup k' (tree_remove k l) = if tkey_eqb k k' then None else tree_lookup k' l.
+Proof.
+  unfold tree_remove. induction l as [|[k0 t0] l IH]; cbn [filter tree_lookup fst].
+  - destruct (tkey_eqb k k'); reflexivity.
+  - destruct (tkey_eqb k k0) eqn:E; cbn [negb].
+    + rewrite IH. apply tkey_eqb_true in E. subst k0.
+      destruct (tkey_eqb k k') eqn:E1; [reflexivity|].
+      destruct (tkey_eqb k' k) eqn:E2; [|reflexivity]. apply tkey_eqb_true in E2. subst k'.
+      rewrite tkey_eqb_refl in E1. discriminate.
+    + cbn [tree_lookup]. rewrite IH. destruct (tkey_eqb k' k0) eqn:E0; [|reflexivity].
+      apply tkey_eqb_true in E0. subst k0. rewrite E. reflexivity.
+Qed.
+
+(* every stored tree is well formed and has the root name of tree.New() *)
+Definition TW (trees : list (tkey * tnode)) : Prop :=
+  forall key tr, tree_lookup key trees = Some tr -> inW [] tr.
+
+Lemma TW_get trees key : TW trees -> inW [] (tree_get key trees).
+Proof.
+  intros H. unfold tree_get. destruct (tree_lookup key trees) as [tr|] eqn:E; [eapply H; eauto|].
+  split; reflexivity.
+Qed.
+
+Lemma TW_store trees k v : TW trees -> inW [] v -> TW (tree_store k v trees).
+Proof.
+  intros H Hv key tr. rewrite tree_lookup_store. destruct (tkey_eqb key k); [intros [= <-]; exact Hv|apply H].
+Qed.
+
+Lemma TW_remove trees k : TW trees -> TW (tree_remove k trees).
+Proof. intros H key tr. rewrite tree_lookup_remove. destruct (tkey_eqb k key); [discriminate|apply H]. Qed.
+
+Lemma inW_clone m d t : inW [] t -> inW [] (t_clone m d t).
+Proof. intros [H1 H2]. split; [rewrite t_clone_wfb; exact H1|rewrite t_clone_name; exact H2]. Qed.
+
+(* ------------------------------------------------------------------------------------------ *)
+(* shape of the put callbacks: ratio m / (b - a) with m >= 0                                    *)
+
+Definition cb_shape (a b : Z) (c : put_cb) : Prop := pc_d c = b - a /\ 0 <= pc_m c.
+
+Lemma put_children_Forall (P : put_cb -> Prop) l a b smp ch :
+  (forall c, Forall P (snd (s_put_node l a b smp c))) ->
+  Forall P (concat (map snd (map (put_child l a b smp) ch))).
+Proof.
+  intros H. induction ch as [|o ch IH]; cbn [map concat]; [constructor|].
+  apply Forall_app. split; [|exact IH]. destruct o as [c|]; cbn [put_child]; [|constructor].
+  specialize (H c). destruct (s_put_node l a b smp c). exact H.
+Qed.
+
+Lemma put_node_shape : forall lvl a b smp n, Forall (cb_shape a b) (snd (s_put_node lvl a b smp n)).
+Proof.
+  induction lvl as [|l IH]; intros a b smp [t p s w ch].
+  - rewrite put_node_unfold_0. cbv zeta. destruct (is_outside _); [constructor|]. cbn [snd].
+    destruct (covers _ || _ || p); repeat constructor. apply ov_nonneg.
+  - rewrite put_node_unfold_S. cbv zeta. destruct (is_outside _); [constructor|]. cbn [snd].
+    apply Forall_app. split.
+    + destruct (covers _ || _ || p); repeat constructor. apply ov_nonneg.
+    + apply put_children_Forall. intros c. apply IH.
+Qed.
+
+Lemma s_put_shape a b smp s : Forall (cb_shape a b) (snd (s_put a b smp s)).
+Proof.
+  unfold s_put. destruct (s_root (s_grow a b s)) as [[lvl n]|]; [|constructor].
+  pose proof (put_node_shape lvl a b smp n) as H. destruct (s_put_node lvl a b smp n). exact H.
+Qed.
+
+(* s_put only looks at the root of the segment; the metadata is carried along *)
+Lemma s_grow_root a b s1 s2 : s_root s1 = s_root s2 -> s_root (s_grow a b s1) = s_root (s_grow a b s2).
+Proof. intros H. unfold s_grow. rewrite H. destruct (s_root s2) as [[lvl n]|]; reflexivity. Qed.
+
+Lemma s_grow_meta a b s : s_meta (s_grow a b s) = s_meta s.
+Proof. unfold s_grow. destruct (s_root s) as [[lvl n]|]; reflexivity. Qed.
+
+Lemma s_put_root a b smp s1 s2 : s_root s1 = s_root s2 ->
+  s_root (fst (s_put a b smp s1)) = s_root (fst (s_put a b smp s2)) /\
+  snd (s_put a b smp s1) = snd (s_put a b smp s2).
+Proof.
+  intros H. unfold s_put. rewrite (s_grow_root a b s1 s2 H).
+  destruct (s_root (s_grow a b s2)) as [[lvl n]|] eqn:E.
+  - destruct (s_put_node lvl a b smp n). split; reflexivity.
+  - cbn [fst snd]. split; [|reflexivity]. rewrite E. apply (s_grow_root a b s1 s2) in H. rewrite H, E. reflexivity.
+Qed.
+
+Lemma s_put_meta a b smp s : s_meta (fst (s_put a b smp s)) = s_meta s.
+Proof.
+  unfold s_put. destruct (s_root (s_grow a b s)) as [[lvl n]|].
+  - destruct (s_put_node lvl a b smp n). cbn [fst s_meta]. apply s_grow_meta.
+  - cbn [fst]. apply s_grow_meta.
+Qed.
+
+(* ------------------------------------------------------------------------------------------ *)
+(* S1. one series: the trees stored under the keys of series [k] mirror the exact store          *)
+
+Lemma t_self_at_clone m d p t : t_self_at p (t_clone m d t) = (t_self_at p t * m / d)%N.
+Proof.
+  unfold t_self_at. rewrite t_clone_at. destruct (t_at p t) as [[s tot]|]; cbn [option_map scale2 fst]; [reflexivity|].
+  rewrite N.mul_0_l. destruct d; reflexivity.
+Qed.
+
+Lemma t_self_at_empty p : t_self_at p t_empty = 0%N.
+Proof. destruct p; reflexivity. Qed.
+
+Section Mirror.
+  Variable k : bytes.
+  Variable p : list bytes.
+
+  (* the tree store agrees with the bucket store E on the keys of series k *)
+  Definition mirrors (trees : list (tkey * tnode)) (E : store) : Prop :=
+    forall lvl t, Z.of_N (t_self_at p (tree_get (k, lvl, t) trees)) = E (lvl, t).
+
+  Lemma addons_fold trees (addons : list (nat * Z)) : TW trees -> forall cl, inW [] cl ->
+    let cl' := fold_left (fun cl a => t_merge cl (tree_get (k, fst a, snd a) trees)) addons cl in
+    inW [] cl' /\
+    Z.of_N (t_self_at p cl') =
+      Z.of_N (t_self_at p cl) + sumZ (map (fun a => Z.of_N (t_self_at p (tree_get (k, fst a, snd a) trees))) addons).
+  Proof.
+    intros HT. induction addons as [|a addons IH]; intros cl Hcl; cbn zeta.
+    - cbn [fold_left map sumZ fold_right]. split; [exact Hcl|lia].
+    - cbn [fold_left map]. pose proof (TW_get trees (k, fst a, snd a) HT) as Ha.
+      destruct (IH (t_merge cl (tree_get (k, fst a, snd a) trees)) (inW_merge _ _ _ Hcl Ha)) as [H1 H2].
+      cbn zeta in H1, H2. split; [exact H1|]. rewrite H2.
+      rewrite t_merge_self_at by (apply Hcl || apply Ha).
+      change (sumZ (?x :: ?l)) with (x + sumZ l). lia.
+  Qed.
+
+  Variable prof : tnode.
+  Variable a b beta : Z.
+  Hypothesis Hab : a < b.
+  Hypothesis Hprof : inW [] prof.
+  Hypothesis Hbeta : Z.of_N (t_self_at p prof) = (b - a) * beta.
+
+  Lemma clone_beta m : 0 <= m -> Z.of_N (t_self_at p (t_clone (Z.to_N m) (Z.to_N (b - a)) prof)) = m * beta.
+  Proof.
+    intros Hm. rewrite t_self_at_clone, N2Z.inj_div, N2Z.inj_mul, !Z2N.id, Hbeta by lia.
+    replace ((b - a) * beta * m) with (beta * m * (b - a)) by lia. rewrite Z.div_mul by lia. lia.
+  Qed.
+
+  Lemma put_cb_apply_mirror trees E c : mirrors trees E -> TW trees -> cb_shape a b c ->
+    mirrors (put_cb_apply k prof trees c) (apply_cb beta E c) /\ TW (put_cb_apply k prof trees c).
+  Proof.
+    intros HM HT [Hd Hm]. unfold put_cb_apply.
+    set (clone := t_clone (Z.to_N (pc_m c)) (Z.to_N (pc_d c)) prof).
+    assert (Hclone : inW [] clone) by (apply inW_clone, Hprof).
+    destruct (addons_fold trees (pc_addons c) HT clone Hclone) as [Hw Hs]. cbn zeta in Hw, Hs.
+    set (clone' := fold_left _ (pc_addons c) clone) in *.
+    pose proof (TW_get trees (k, pc_lvl c, pc_t c) HT) as Hold.
+    split.
+    - intros lvl t. rewrite tree_get_store. unfold apply_cb, st_add, skey_eqb. cbn [fst snd].
+      destruct (tkey_eqb (k, lvl, t) (k, pc_lvl c, pc_t c)) eqn:E1.
+      + apply tkey_eqb_true in E1. injection E1 as -> ->. rewrite Nat.eqb_refl, Z.eqb_refl. cbn [andb].
+        rewrite t_merge_self_at by (apply Hold || apply Hw). rewrite N2Z.inj_add, Hs, HM.
+        unfold clone. rewrite Hd, clone_beta by exact Hm.
+        replace (map E (pc_addons c)) with
+          (map (fun a0 => Z.of_N (t_self_at p (tree_get (k, fst a0, snd a0) trees))) (pc_addons c)); [lia|].
+        apply map_ext. intros [l0 t0]. cbn [fst snd]. apply HM.
+      + replace (Nat.eqb (pc_lvl c) lvl && (pc_t c =? t)) with false; [apply HM|].
+        symmetry. apply andb_false_iff. destruct (Nat.eqb_spec (pc_lvl c) lvl) as [Hl|Hl]; [|left; reflexivity].
+        right. apply Z.eqb_neq. intros Ht. rewrite <- Hl, <- Ht, tkey_eqb_refl in E1. discriminate.
+    - apply TW_store; [exact HT|]. apply inW_merge; assumption.
+  Qed.
+
+  Lemma put_cbs_mirror cbs : forall trees E, mirrors trees E -> TW trees -> Forall (cb_shape a b) cbs ->
+    mirrors (fold_left (put_cb_apply k prof) cbs trees) (apply_cbs beta E cbs) /\
+    TW (fold_left (put_cb_apply k prof) cbs trees).
+  Proof.
+    induction cbs as [|c cbs IH]; intros trees E HM HT Hs; [split; assumption|].
+    inversion Hs as [|? ? Hc Hs']; subst. cbn [fold_left]. unfold apply_cbs. cbn [fold_left].
+    destruct (put_cb_apply_mirror trees E c HM HT Hc) as [HM' HT']. apply IH; assumption.
+  Qed.
+End Mirror.
+
+(* callbacks applied under another series key leave the trees of series k alone *)
+Lemma put_cb_apply_other k k' prof trees c lvl t : k <> k' ->
+  tree_get (k', lvl, t) (put_cb_apply k prof trees c) = tree_get (k', lvl, t) trees.
+Proof.
+  intros Hk. unfold put_cb_apply. rewrite tree_get_store, tkey_eqb_false; [reflexivity|]. congruence.
+Qed.
+
+Lemma put_cbs_other k k' prof cbs lvl t : k <> k' -> forall trees,
+  tree_get (k', lvl, t) (fold_left (put_cb_apply k prof) cbs trees) = tree_get (k', lvl, t) trees.
+Proof.
+  intros Hk. induction cbs as [|c cbs IH]; intros trees; [reflexivity|]. cbn [fold_left].
+  rewrite IH. apply put_cb_apply_other, Hk.
+Qed.
+
+(* ------------------------------------------------------------------------------------------ *)
+(* the segment table                                                                            *)
+
+Lemma seg_lookup_store k k0 s l :
+  seg_lookup k (seg_store k0 s l) = if beqb (sid_key k) (sid_key k0) then Some s else seg_lookup k l.
+Proof.
+  induction l as [|[k1 s1] l IH]; cbn [seg_store seg_lookup]; unfold sid_eqb.
+  - destruct (beqb (sid_key k) (sid_key k0)); reflexivity.
+  - destruct (bcmp (sid_key k0) (sid_key k1)) eqn:E; cbn [seg_lookup]; unfold sid_eqb.
+    + apply bcmp_eq in E. rewrite <- E. destruct (beqb (sid_key k) (sid_key k0)); reflexivity.
+    + destruct (beqb (sid_key k) (sid_key k0)); reflexivity.
+    + fold (sid_eqb k k1). unfold sid_eqb. rewrite IH.
+      destruct (beqb (sid_key k) (sid_key k1)) eqn:E1; [|reflexivity].
+      apply beqb_true in E1. rewrite E1. rewrite beqb_sym, (beqb_false_gt _ _ E). reflexivity.
+Qed.
+
+Definition root_of (k : sid) (st : st_state) : option (nat * snode) :=
+  match seg_lookup k (st_segs st) with Some s => s_root s | None => None end.
+Definition meta_of (k : sid) (st : st_state) : option meta :=
+  match seg_lookup k (st_segs st) with Some s => Some (s_meta s) | None => None end.
+
+(* the normalised write range of an upload, and st_put without its pattern-matching lets *)
+Definition pi_ab (pi : put_input) : Z * Z := s_normalize_unix (pi_from pi, pi_until pi).
+Definition pi_seg0 (pi : put_input) (st : st_state) : segment :=
+  s_set_meta (pi_meta pi) (match seg_lookup (pi_sid pi) (st_segs st) with Some s => s | None => s_empty end).
+Definition pi_res (pi : put_input) (st : st_state) : segment * list put_cb :=
+  s_put (fst (pi_ab pi)) (snd (pi_ab pi)) (t_total (pi_tree pi)) (pi_seg0 pi st).
+
+Lemma st_put_none pi st :
+  st_put None pi st =
+    ({| st_segs := seg_store (pi_sid pi) (fst (pi_res pi st)) (st_segs st);
+        st_trees := fold_left (put_cb_apply (sid_key (pi_sid pi)) (pi_tree pi)) (snd (pi_res pi st)) (st_trees st) |}, true).
+Proof.
+  unfold st_put, pi_res, pi_seg0, pi_ab, s_put_unix.
+  destruct (s_normalize_unix (pi_from pi, pi_until pi)) as [a b]. cbn [fst snd].
+  destruct (s_put a b _ _) as [seg' cbs]. reflexivity.
+Qed.
+
+Definition st_after (pis : list put_input) : st_state :=
+  fold_left (fun st pi => fst (st_put None pi st)) pis st_init.
+
+Definition series_puts (kb : bytes) (pis : list put_input) : list put_input :=
+  filter (fun pi => beqb (sid_key (pi_sid pi)) kb) pis.
+
+(* the write of series history seen by the exact store for stack p: per-slot amount count/span *)
+Definition pi_w (p : list bytes) (pi : put_input) : write :=
+  {| w_a := fst (pi_ab pi); w_b := snd (pi_ab pi); w_smp := t_total (pi_tree pi);
+     w_beta := Z.of_N (t_self_at p (pi_tree pi)) / (snd (pi_ab pi) - fst (pi_ab pi)) |}.
+Definition ws (kb : bytes) (p : list bytes) (pis : list put_input) : list write := map (pi_w p) (series_puts kb pis).
+
+(* an upload the exactness theorem speaks about: non-empty range, a tree as built by Insert, every
+   count a multiple of the span *)
+Definition good_put (pi : put_input) : Prop :=
+  fst (pi_ab pi) < snd (pi_ab pi) /\ inW [] (pi_tree pi) /\
+  forall p, Z.of_N (t_self_at p (pi_tree pi)) mod (snd (pi_ab pi) - fst (pi_ab pi)) = 0.
+
+Lemma ws_snoc kb p pis pi :
+  ws kb p (pis ++ [pi]) = if beqb (sid_key (pi_sid pi)) kb then ws kb p pis ++ [pi_w p pi] else ws kb p pis.
+Proof.
+  unfold ws, series_puts. rewrite filter_app, map_app. cbn [filter].
+  destruct (beqb (sid_key (pi_sid pi)) kb); [reflexivity|apply app_nil_r].
+Qed.
+
+Lemma run_writes_snoc l w : run_writes (l ++ [w]) = put_step (run_writes l) w.
+Proof. unfold run_writes. rewrite fold_left_app. reflexivity. Qed.
+
+Lemma put_step_eq sE w :
+  put_step sE w = (fst (s_put (w_a w) (w_b w) (w_smp w) (fst sE)),
+                   apply_cbs (w_beta w) (snd sE) (snd (s_put (w_a w) (w_b w) (w_smp w) (fst sE)))).
+Proof. unfold put_step. destruct (s_put _ _ _ _). reflexivity. Qed.
+
+Section Inv.
+  Variable p : list bytes.
+
+  Definition Inv (pis : list put_input) (st : st_state) : Prop :=
+    (forall k : sid, root_of k st = s_root (fst (run_writes (ws (sid_key k) p pis)))) /\
+    (forall kb, mirrors kb p (st_trees st) (snd (run_writes (ws kb p pis)))) /\
+    TW (st_trees st).
+
+  Lemma Inv_init : Inv [] st_init.
+  Proof.
+    split; [|split].
+    - intros k. reflexivity.
+    - intros kb lvl t. cbn. unfold tree_get. cbn. rewrite t_self_at_empty. reflexivity.
+    - intros key tr. discriminate.
+  Qed.
+
+  Lemma Inv_step pis st pi : Inv pis st -> good_put pi -> Inv (pis ++ [pi]) (fst (st_put None pi st)).
+  Proof.
+    intros (HR & HM & HT) (Hab & Hprof & Hdiv). rewrite st_put_none. cbn [fst].
+    set (kb0 := sid_key (pi_sid pi)).
+    (* the segment st_put works on has the root of the per-series history *)
+    assert (Hroot0 : s_root (pi_seg0 pi st) = s_root (fst (run_writes (ws kb0 p pis)))).
+    { unfold kb0. rewrite <- (HR (pi_sid pi)). unfold pi_seg0, root_of. destruct (seg_lookup (pi_sid pi) (st_segs st)); reflexivity. }
+    destruct (s_put_root (fst (pi_ab pi)) (snd (pi_ab pi)) (t_total (pi_tree pi)) _ _ Hroot0) as [Hr1 Hr2].
+    fold (pi_res pi st) in Hr1, Hr2.
+    assert (Hstep : run_writes (ws kb0 p pis ++ [pi_w p pi]) =
+              (fst (s_put (fst (pi_ab pi)) (snd (pi_ab pi)) (t_total (pi_tree pi)) (fst (run_writes (ws kb0 p pis)))),
+               apply_cbs (w_beta (pi_w p pi)) (snd (run_writes (ws kb0 p pis))) (snd (pi_res pi st)))).
+    { rewrite run_writes_snoc, put_step_eq. cbn [pi_w w_a w_b w_smp w_beta]. rewrite Hr2. reflexivity. }
+    split; [|split].
+    - intros k. unfold root_of. cbn [st_segs]. rewrite seg_lookup_store, ws_snoc. fold kb0.
+      rewrite (beqb_sym (sid_key k) kb0).
+      destruct (beqb kb0 (sid_key k)) eqn:E.
+      + apply beqb_true in E. rewrite <- E, Hstep. cbn [fst]. exact Hr1.
+      + apply HR.
+    - intros kb. cbn [st_trees]. rewrite ws_snoc. fold kb0. destruct (beqb kb0 kb) eqn:E.
+      + apply beqb_true in E. subst kb. rewrite Hstep. cbn [snd].
+        apply (put_cbs_mirror kb0 p (pi_tree pi) (fst (pi_ab pi)) (snd (pi_ab pi))); try assumption.
+        * cbn [pi_w w_beta]. specialize (Hdiv p).
+          set (d := snd (pi_ab pi) - fst (pi_ab pi)) in *. pose proof (Z.div_mod (Z.of_N (t_self_at p (pi_tree pi))) d). lia.
+        * apply HM.
+        * apply s_put_shape.
+      + intros lvl t. rewrite put_cbs_other; [apply HM|]. intros Hk. subst kb. rewrite beqb_refl in E. discriminate.
+    - cbn [st_trees].
+      destruct (put_cbs_mirror kb0 p (pi_tree pi) (fst (pi_ab pi)) (snd (pi_ab pi))
+                  (Z.of_N (t_self_at p (pi_tree pi)) / (snd (pi_ab pi) - fst (pi_ab pi))) Hab Hprof
+                  ltac:(specialize (Hdiv p); set (d := snd (pi_ab pi) - fst (pi_ab pi)) in *;
+                        pose proof (Z.div_mod (Z.of_N (t_self_at p (pi_tree pi))) d); lia)
+                  (snd (pi_res pi st)) (st_trees st) _ (HM kb0) HT (s_put_shape _ _ _ _)) as [_ H]. exact H.
+  Qed.
+
+  Lemma Inv_after pis : Forall good_put pis -> Inv pis (st_after pis).
+  Proof.
+    unfold st_after. induction pis as [|pi pis IH] using rev_ind; intros H; [apply Inv_init|].
+    apply Forall_app in H. destruct H as [H1 H2]. inversion H2; subst.
+    rewrite fold_left_app. cbn [fold_left]. apply Inv_step; auto.
+  Qed.
+End Inv.
+
+(* ------------------------------------------------------------------------------------------ *)
+(* the table stays sorted by key; stored metadata and series identifier are those of the latest
+   upload of the series                                                                         *)
+
+Fixpoint segs_sorted (l : list (sid * segment)) : Prop :=
+  match l with
+  | [] => True
+  | ks :: l' => Forall (fun ks' => bcmp (sid_key (fst ks)) (sid_key (fst ks')) = Lt) l' /\ segs_sorted l'
+  end.
+
+Lemma seg_store_sorted k s l : segs_sorted l -> segs_sorted (seg_store k s l).
+Proof.
+  induction l as [|[k1 s1] l IH]; intros H; cbn [seg_store]; [cbn; auto|].
+  cbn [segs_sorted fst] in H. destruct H as [H1 H2].
+  destruct (bcmp (sid_key k) (sid_key k1)) eqn:E; cbn [segs_sorted fst].
+  - apply bcmp_eq in E. rewrite E. split; assumption.
+  - split; [|split; assumption]. constructor; [exact E|].
+    eapply Forall_impl; [|exact H1]. cbn. intros ks' H. eapply bcmp_lt_trans; eauto.
+  - split; [|apply IH, H2]. clear IH H2. apply bcmp_lt_gt in E.
+    induction H1 as [|[k2 s2] l Hx Hl IHl]; cbn [seg_store]; [repeat constructor; exact E|].
+    destruct (bcmp (sid_key k) (sid_key k2)); constructor; auto; constructor; auto.
+Qed.
+
+Lemma sorted_lookup l : segs_sorted l -> forall ks, In ks l -> seg_lookup (fst ks) l = Some (snd ks).
+Proof.
+  induction l as [|[k1 s1] l IH]; intros H ks Hin; [destruct Hin|].
+  cbn [segs_sorted fst] in H. destruct H as [H1 H2]. cbn [seg_lookup]. unfold sid_eqb.
+  destruct Hin as [<-|Hin]; cbn [fst snd]; [rewrite beqb_refl; reflexivity|].
+  rewrite Forall_forall in H1. specialize (H1 ks Hin).
+  rewrite beqb_sym, (beqb_false_lt _ _ H1). apply IH; assumption.
+Qed.
+
+Definition last_put (kb : bytes) (pis : list put_input) : option put_input :=
+  match rev (series_puts kb pis) with pi :: _ => Some pi | [] => None end.
+
+Lemma last_put_snoc kb pis pi :
+  last_put kb (pis ++ [pi]) = if beqb (sid_key (pi_sid pi)) kb then Some pi else last_put kb pis.
+Proof.
+  unfold last_put, series_puts. rewrite filter_app. cbn [filter].
+  destruct (beqb (sid_key (pi_sid pi)) kb); [rewrite rev_app_distr; reflexivity|rewrite app_nil_r; reflexivity].
+Qed.
+
+Definition Inv2 (pis : list put_input) (st : st_state) : Prop :=
+  segs_sorted (st_segs st) /\
+  forall k : sid, match seg_lookup k (st_segs st), last_put (sid_key k) pis with
+                  | Some s, Some pi => s_meta s = pi_meta pi
+                  | None, None => True
+                  | _, _ => False
+                  end.
+
+Lemma Inv2_init : Inv2 [] st_init.
+Proof. split; [exact I|]. intros k. exact I. Qed.
+
+Lemma Inv2_step pis st pi : Inv2 pis st -> Inv2 (pis ++ [pi]) (fst (st_put None pi st)).
+Proof.
+  intros [HS HL]. rewrite st_put_none. cbn [fst]. split; cbn [st_segs].
+  - apply seg_store_sorted, HS.
+  - intros k. rewrite seg_lookup_store, last_put_snoc. rewrite (beqb_sym (sid_key k)).
+    destruct (beqb (sid_key (pi_sid pi)) (sid_key k)); [|apply HL].
+    unfold pi_res. rewrite s_put_meta. reflexivity.
+Qed.
+
+Lemma Inv2_after pis : Inv2 pis (st_after pis).
+Proof.
+  unfold st_after. induction pis as [|pi pis IH] using rev_ind; [apply Inv2_init|].
+  rewrite fold_left_app. cbn [fold_left]. apply Inv2_step, IH.
+Qed.
+
+(* the series identifier stored in the table is the one of the latest upload with that key *)
+Lemma seg_store_in k s l ks : In ks (seg_store k s l) -> ks = (k, s) \/ In ks l.
+Proof.
+  induction l as [|[k1 s1] l IH]; cbn [seg_store]; [intros [<-|[]]; auto|].
+  destruct (bcmp (sid_key k) (sid_key k1)).
+  - intros [<-|H]; [auto|right; right; exact H].
+  - intros [<-|H]; auto.
+  - intros [<-|H]; [right; left; reflexivity|]. destruct (IH H); auto. right. right. assumption.
+Qed.
+
+Lemma st_after_sids pis : forall ks, In ks (st_segs (st_after pis)) -> exists pi, In pi pis /\ fst ks = pi_sid pi.
+Proof.
+  unfold st_after. induction pis as [|pi pis IH] using rev_ind; intros ks; [intros []|].
+  rewrite fold_left_app. cbn [fold_left]. rewrite st_put_none. cbn [fst st_segs]. intros H.
+  apply seg_store_in in H. destruct H as [->|H].
+  - exists pi. split; [apply in_or_app; right; left; reflexivity|reflexivity].
+  - destruct (IH ks H) as (pi' & Hin & E). exists pi'. split; [apply in_or_app; left; exact Hin|exact E].
+Qed.
+
+(* ------------------------------------------------------------------------------------------ *)
+(* S2. Get: per stack, the merged answer is the sum of what the read assembles from the buckets   *)
+
+Definition gcb_shape (c : get_cb) : Prop := 0 <= gc_m c /\ 0 <= gc_d c.
+
+Lemma get_node_shape : forall lvl a b n, Forall gcb_shape (s_get_node lvl a b n).
+Proof.
+  induction lvl as [|l IH]; intros a b [t p s w ch]; rewrite get_node_unfold; cbv zeta.
+  - destruct (p && covers _); [repeat constructor; cbn; lia|]. destruct (is_outside _); [constructor|].
+    destruct (p && _); [|constructor]. repeat constructor; cbn; [apply ov_nonneg|pose proof (pow10_pos 0); lia].
+  - destruct (p && covers _); [repeat constructor; cbn; lia|]. destruct (is_outside _); [constructor|].
+    destruct (p && _); [repeat constructor; cbn; [apply ov_nonneg|pose proof (pow10_pos (S l)); lia]|].
+    induction ch as [|o ch IHch]; cbn [flat_map]; [constructor|]. apply Forall_app. split; [|exact IHch].
+    destruct o as [c|]; cbn [get_child]; [apply IH|constructor].
+Qed.
+
+Lemma s_get_shape a b s : Forall gcb_shape (s_get a b s).
+Proof. unfold s_get. destruct (s_root s) as [[lvl n]|]; [apply get_node_shape|constructor]. Qed.
+
+Lemma s_get_root a b s1 s2 : s_root s1 = s_root s2 -> s_get a b s1 = s_get a b s2.
+Proof. unfold s_get. intros ->. reflexivity. Qed.
+
+Lemma fold_merge_self_at p rest : forall t, inW [] t -> Forall (inW []) rest ->
+  t_self_at p (fold_left t_merge rest t) = (t_self_at p t + sumN (map (t_self_at p) rest))%N.
+Proof.
+  induction rest as [|r rest IH]; intros t Ht Hr; cbn [fold_left map].
+  - change (sumN []) with 0%N. lia.
+  - inversion Hr as [|? ? Hr1 Hr2]; subst. rewrite IH by (try apply inW_merge; assumption).
+    rewrite t_merge_self_at by (apply Ht || apply Hr1). change (sumN (?x :: ?l)) with (x + sumN l)%N. lia.
+Qed.
+
+Lemma merge_serial_self_at p l t : Forall (inW []) l -> merge_serial l = Some t ->
+  t_self_at p t = sumN (map (t_self_at p) l).
+Proof.
+  destruct l as [|t0 rest]; [discriminate|]. intros H [= <-]. inversion H; subst.
+  rewrite fold_merge_self_at by assumption. reflexivity.
+Qed.
+
+Lemma Z_of_sumN l : Z.of_N (sumN l) = sumZ (map Z.of_N l).
+Proof. induction l as [|x l IH]; [reflexivity|]. change (sumN (x :: l)) with (x + sumN l)%N. cbn [map sumZ fold_right]. fold (sumZ (map Z.of_N l)). lia. Qed.
+
+Lemma sumZ_app' l1 l2 : sumZ (l1 ++ l2) = sumZ l1 + sumZ l2.
+Proof. induction l1 as [|x l1 IH]; cbn [app sumZ fold_right]; [reflexivity|]. fold (sumZ (l1 ++ l2)). fold (sumZ l1). lia. Qed.
+
+Lemma sumZ_flat_map {A B} (f : B -> Z) (g : A -> list B) l :
+  sumZ (map f (flat_map g l)) = sumZ (map (fun x => sumZ (map f (g x))) l).
+Proof.
+  induction l as [|x l IH]; [reflexivity|]. cbn [flat_map map]. rewrite map_app, sumZ_app', IH. reflexivity.
+Qed.
+
+(* the list of (clone, writes) pairs st_get merges *)
+Definition get_parts (a b : Z) (matching : list (sid * segment)) (trees : list (tkey * tnode)) : list (tnode * N) :=
+  flat_map (fun ks =>
+     map (fun c => (t_clone (Z.to_N (gc_m c)) (Z.to_N (gc_d c)) (tree_get (sid_key (fst ks), gc_lvl c, gc_t c) trees),
+                    gc_writes c))
+         (s_get a b (snd ks))) matching.
+
+Definition st_matching (sel : sid) (st : st_state) : list (sid * segment) :=
+  filter (fun ks => sel_matches sel (fst ks)) (st_segs st).
+
+Definition has_average (matching : list (sid * segment)) : bool :=
+  existsb (fun ks => beqb (m_agg (s_meta (snd ks))) average_bytes) matching.
+
+Lemma st_get_eq sel from until st :
+  st_get sel from until st =
+    let ab := s_normalize_unix (from, until) in
+    let matching := st_matching sel st in
+    let parts := get_parts (fst ab) (snd ab) matching (st_trees st) in
+    match merge_serial (map fst parts) with
+    | None => None
+    | Some t =>
+        let writes := sumN (map snd parts) in
+        Some {| go_tree := if (0 <? writes)%N && has_average matching then t_clone 1 writes t else t;
+                go_timeline := fold_left (fun tl ks => tl_populate (snd ks) tl) matching (tl_generate (fst ab) (snd ab));
+                go_meta := match rev matching with ks :: _ => s_meta (snd ks) | [] => meta0 end |}
+    end.
+Proof. unfold st_get. destruct (s_normalize_unix (from, until)) as [a b]. reflexivity. Qed.
+
+Lemma clone_read p kb trees E c : mirrors kb p trees E -> gcb_shape c ->
+  Z.of_N (t_self_at p (t_clone (Z.to_N (gc_m c)) (Z.to_N (gc_d c)) (tree_get (kb, gc_lvl c, gc_t c) trees)))
+  = E (gc_lvl c, gc_t c) * gc_m c / gc_d c.
+Proof.
+  intros HM [Hm Hd]. rewrite t_self_at_clone, N2Z.inj_div, N2Z.inj_mul, !Z2N.id, HM by lia. reflexivity.
+Qed.
+
+Lemma parts_sum p (E : bytes -> store) trees a b matching :
+  (forall kb, mirrors kb p trees (E kb)) ->
+  Z.of_N (sumN (map (t_self_at p) (map fst (get_parts a b matching trees)))) =
+  sumZ (map (fun ks => read_sum (E (sid_key (fst ks))) (s_get a b (snd ks))) matching).
+Proof.
+  intros HM. rewrite Z_of_sumN, !map_map. unfold get_parts. rewrite sumZ_flat_map. f_equal.
+  apply map_ext. intros ks. rewrite map_map. unfold read_sum. f_equal.
+  apply map_ext_in. intros c Hc. cbn [fst].
+  apply clone_read; [apply HM|]. pose proof (s_get_shape a b (snd ks)) as H. rewrite Forall_forall in H. auto.
+Qed.
+
+Lemma parts_inW a b matching trees : TW trees -> Forall (inW []) (map fst (get_parts a b matching trees)).
+Proof.
+  intros HT. apply Forall_forall. intros t Ht. apply in_map_iff in Ht. destruct Ht as ([t' w] & <- & Hin).
+  unfold get_parts in Hin. apply in_flat_map in Hin. destruct Hin as (ks & _ & Hin).
+  apply in_map_iff in Hin. destruct Hin as (c & [= <- _] & _). cbn [fst]. apply inW_clone, TW_get, HT.
+Qed.
+
+Lemma flat_map_nil {A B} (g : A -> list B) l : flat_map g l = [] -> forall x, In x l -> g x = [].
+Proof.
+  induction l as [|y l IH]; cbn [flat_map]; intros H x []; apply app_eq_nil in H; destruct H; subst; auto.
+Qed.
+
+(* what one series contributes to stack p of a read of [a,b): the buckets named by s_get, read from the
+   exact store of the series' own write history *)
+Definition series_read (p : list bytes) (pis : list put_input) (a b : Z) (kb : bytes) : Z :=
+  let r := run_writes (ws kb p pis) in read_sum (snd r) (s_get a b (fst r)).
+
+Lemma get_sum p pis sel from until : Forall good_put pis ->
+  let st := st_after pis in
+  let ab := s_normalize_unix (from, until) in
+  let matching := st_matching sel st in
+  has_average matching = false ->
+  let S := sumZ (map (fun ks => series_read p pis (fst ab) (snd ab) (sid_key (fst ks))) matching) in
+  match st_get sel from until st with
+  | Some out => Z.of_N (t_self_at p (go_tree out)) = S
+  | None => S = 0
+  end.
+Proof.
+  intros Hgood st ab matching Havg S.
+  destruct (Inv_after p pis Hgood) as (HR & HM & HT). destruct (Inv2_after pis) as [HS _]. fold st in HR, HM, HT, HS.
+  assert (HSum : Z.of_N (sumN (map (t_self_at p) (map fst (get_parts (fst ab) (snd ab) matching (st_trees st))))) = S).
+  { rewrite (parts_sum p (fun kb => snd (run_writes (ws kb p pis)))) by exact HM.
+    unfold S. f_equal. apply map_ext_in. intros ks Hks. unfold series_read. cbv zeta. f_equal.
+    apply s_get_root. apply filter_In in Hks. destruct Hks as [Hks _].
+    rewrite <- HR. unfold root_of. rewrite (sorted_lookup _ HS ks Hks). reflexivity. }
+  rewrite st_get_eq. cbv zeta. fold st ab matching.
+  destruct (merge_serial (map fst (get_parts (fst ab) (snd ab) matching (st_trees st)))) as [t|] eqn:E.
+  - cbn [go_tree]. rewrite Havg, andb_false_r.
+    rewrite (merge_serial_self_at p _ t (parts_inW _ _ _ _ HT) E). exact HSum.
+  - rewrite <- HSum. destruct (map fst (get_parts _ _ _ _)); [reflexivity|discriminate].
+Qed.
+
+(* ------------------------------------------------------------------------------------------ *)
+(* S4. regrouping: sum over the table's matching series of the series' uploads = sum over the
+   uploads into matching series                                                                 *)
+
+Lemma sumZ_cons' x l : sumZ (x :: l) = x + sumZ l.
+Proof. reflexivity. Qed.
+
+Lemma sumZ_map_add {A} (f g : A -> Z) l : sumZ (map (fun x => f x + g x) l) = sumZ (map f l) + sumZ (map g l).
+Proof. induction l as [|x l IH]; [reflexivity|]. cbn [map]. rewrite !sumZ_cons', IH. lia. Qed.
+
+Lemma sumZ_map_zero {A} (f : A -> Z) l : (forall x, In x l -> f x = 0) -> sumZ (map f l) = 0.
+Proof.
+  induction l as [|x l IH]; intros H; [reflexivity|]. cbn [map]. rewrite sumZ_cons', IH, H; [reflexivity|left; reflexivity|].
+  intros y Hy. apply H. right. exact Hy.
+Qed.
+
+Lemma sumZ_indicator (keys : list bytes) kb v : NoDup keys -> In kb keys ->
+  sumZ (map (fun k => if beqb kb k then v else 0) keys) = v.
+Proof.
+  induction keys as [|k keys IH]; intros Hnd Hin; [destruct Hin|]. inversion Hnd as [|? ? Hk Hnd']; subst.
+  cbn [map]. rewrite sumZ_cons'. destruct Hin as [->|Hin].
+  - rewrite beqb_refl, sumZ_map_zero; [lia|]. intros k' Hk'. destruct (beqb kb k') eqn:E; [|reflexivity].
+    apply beqb_true in E. subst k'. contradiction.
+  - rewrite IH by assumption. destruct (beqb kb k) eqn:E; [|lia]. apply beqb_true in E. subst k. contradiction.
+Qed.
+
+Lemma regroup {X} (key : X -> bytes) (g : X -> Z) (keys : list bytes) (items : list X) :
+  NoDup keys -> (forall x, In x items -> In (key x) keys) ->
+  sumZ (map (fun kb => sumZ (map g (filter (fun x => beqb (key x) kb) items))) keys) = sumZ (map g items).
+Proof.
+  intros Hnd. induction items as [|x items IH]; intros Hin.
+  - cbn [filter map]. apply sumZ_map_zero. reflexivity.
+  - cbn [map]. rewrite sumZ_cons'.
+    transitivity (sumZ (map (fun kb => (if beqb (key x) kb then g x else 0) +
+                                       sumZ (map g (filter (fun x0 => beqb (key x0) kb) items))) keys)).
+    + f_equal. apply map_ext. intros kb. cbn [filter].
+      destruct (beqb (key x) kb); [cbn [map]; rewrite sumZ_cons'|]; lia.
+    + rewrite sumZ_map_add, sumZ_indicator, IH; [reflexivity| |exact Hnd|].
+      * intros y Hy. apply Hin. right. exact Hy.
+      * apply Hin. left. reflexivity.
+Qed.
+
+Lemma sorted_NoDup l : segs_sorted l -> NoDup (map (fun ks => sid_key (fst ks)) l).
+Proof.
+  induction l as [|ks l IH]; intros H; [constructor|]. cbn [segs_sorted] in H. destruct H as [H1 H2].
+  cbn [map]. constructor; [|apply IH, H2]. intros Hin. apply in_map_iff in Hin. destruct Hin as (ks' & E & Hin).
+  rewrite Forall_forall in H1. specialize (H1 ks' Hin). rewrite E, bcmp_refl in H1. discriminate.
+Qed.
+
+Lemma NoDup_filter_map {A B} (f : A -> B) (q : A -> bool) l : NoDup (map f l) -> NoDup (map f (filter q l)).
+Proof.
+  induction l as [|x l IH]; intros H; [constructor|]. cbn [map] in H. inversion H as [|? ? Hx Hl]; subst.
+  cbn [filter]. destruct (q x); [|apply IH, Hl]. cbn [map]. constructor; [|apply IH, Hl].
+  intros Hin. apply Hx. apply in_map_iff in Hin. destruct Hin as (y & E & Hy). apply filter_In in Hy.
+  apply in_map_iff. exists y. tauto.
+Qed.
+
+Lemma seg_lookup_in k l s : seg_lookup k l = Some s -> exists ks, In ks l /\ sid_key (fst ks) = sid_key k /\ snd ks = s.
+Proof.
+  induction l as [|[k1 s1] l IH]; cbn [seg_lookup]; [discriminate|]. unfold sid_eqb.
+  destruct (beqb (sid_key k) (sid_key k1)) eqn:E.
+  - intros [= <-]. exists (k1, s1). split; [left; reflexivity|]. apply beqb_true in E. auto.
+  - intros H. destruct (IH H) as (ks & Hin & H1 & H2). exists ks. split; [right; exact Hin|auto].
+Qed.
+
+(* two uploads with the same canonical key text belong to the same series (key = Normalized()) *)
+Definition key_consistent (pis : list put_input) : Prop :=
+  forall pi pi', In pi pis -> In pi' pis -> sid_key (pi_sid pi) = sid_key (pi_sid pi') -> pi_sid pi = pi_sid pi'.
+
+Lemma regroup_puts (g : put_input -> Z) pis sel : key_consistent pis ->
+  sumZ (map (fun ks => sumZ (map g (series_puts (sid_key (fst ks)) pis))) (st_matching sel (st_after pis))) =
+  sumZ (map g (filter (fun pi => sel_matches sel (pi_sid pi)) pis)).
+Proof.
+  intros Hc. destruct (Inv2_after pis) as [HS HL].
+  set (segs := st_segs (st_after pis)) in *.
+  (* a table entry and an upload with the same key carry the same series identifier *)
+  assert (Hsid : forall ks pi, In ks segs -> In pi pis -> sid_key (pi_sid pi) = sid_key (fst ks) -> pi_sid pi = fst ks).
+  { intros ks pi Hks Hpi E. destruct (st_after_sids pis ks Hks) as (pi' & Hpi' & E'). rewrite E' in *. apply Hc; assumption. }
+  rewrite <- (regroup (fun pi => sid_key (pi_sid pi)) g
+                 (map (fun ks => sid_key (fst ks)) (st_matching sel (st_after pis)))).
+  - rewrite map_map. f_equal. apply map_ext_in. intros ks Hks. f_equal.
+    unfold series_puts. apply filter_In in Hks. destruct Hks as [Hks Hm].
+    (* among the uploads with this key, all match *)
+    assert (H : forall l, (forall y, In y l -> In y pis) ->
+               filter (fun pi0 => beqb (sid_key (pi_sid pi0)) (sid_key (fst ks))) l =
+               filter (fun x => beqb (sid_key (pi_sid x)) (sid_key (fst ks))) (filter (fun pi0 => sel_matches sel (pi_sid pi0)) l)).
+    { induction l as [|x l IHl]; intros Hl; [reflexivity|]. cbn [filter].
+      destruct (beqb (sid_key (pi_sid x)) (sid_key (fst ks))) eqn:E.
+      - apply beqb_true in E. rewrite (Hsid ks x Hks (Hl x (or_introl eq_refl)) E), Hm. cbn [filter].
+        rewrite (Hsid ks x Hks (Hl x (or_introl eq_refl)) E) in E |- *. rewrite beqb_refl. f_equal.
+        apply IHl. intros y Hy. apply Hl. right. exact Hy.
+      - destruct (sel_matches sel (pi_sid x)); cbn [filter]; [rewrite E|]; apply IHl; intros y Hy; apply Hl; right; exact Hy. }
+    f_equal. apply H. auto.
+  - apply NoDup_filter_map, sorted_NoDup, HS.
+  - intros pi Hpi. apply filter_In in Hpi. destruct Hpi as [Hpi Hm].
+    specialize (HL (pi_sid pi)). fold segs in HL.
+    destruct (seg_lookup (pi_sid pi) segs) as [s|] eqn:E.
+    + destruct (seg_lookup_in _ _ _ E) as (ks & Hks & Hk & _). apply in_map_iff. exists ks. split; [exact Hk|].
+      apply filter_In. split; [exact Hks|]. rewrite <- (Hsid ks pi Hks Hpi (eq_sym Hk)). exact Hm.
+    + unfold last_put in HL. destruct (rev (series_puts (sid_key (pi_sid pi)) pis)) eqn:Er; [|destruct HL].
+      assert (Hin : In pi (series_puts (sid_key (pi_sid pi)) pis)).
+      { apply filter_In. split; [exact Hpi|apply beqb_refl]. }
+      apply in_rev in Hin. rewrite Er in Hin. destruct Hin.
+Qed.
+
+(* ------------------------------------------------------------------------------------------ *)
+(* S3. closed form, from the segment-level exactness statement                                  *)
+
+(* the statement builder "seg" proves in Proofs/Seg*.v: on the exact store of a history of writes
+   spanning at most 9 slots inside one epoch block, a read of [a,b) returns, per write, its per-slot
+   amount times the number of its slots inside [a,b) — whatever cover s_get assembled *)
+Definition seg_read_exact_stmt : Prop :=
+  forall K (wsl : list write) a b,
+    Forall (valid_write K) wsl -> Forall (fun w => w_b w - w_a w <= 9) wsl -> valid_range K a b ->
+    read_sum (snd (run_writes wsl)) (s_get a b (fst (run_writes wsl))) =
+    sumZ (map (fun w => w_beta w * ov (w_a w) (w_b w) a b) wsl).
+
+(* ... and it holds: Proofs/SegRead.v (builder "seg"), which needs only a < b of the read range *)
+Lemma seg_read_exact_holds : seg_read_exact_stmt.
+Proof.
+  intros K wsl a b Hv H9 (Hab & _). apply (seg_read_exact K wsl a b Hv Hab).
+  eapply Forall_impl; [|exact H9]. cbn. intros; lia.
+Qed.
+
+(* per-stack contribution of one upload to a read of [a,b): (count / span) * slots of the upload in [a,b) *)
+Definition contrib (p : list bytes) (a b : Z) (pi : put_input) : Z :=
+  Z.of_N (t_self_at p (pi_tree pi)) / (snd (pi_ab pi) - fst (pi_ab pi)) * ov (fst (pi_ab pi)) (snd (pi_ab pi)) a b.
+
+Definition exact_put (K : Z) (pi : put_input) : Prop :=
+  good_put pi /\ valid_range K (fst (pi_ab pi)) (snd (pi_ab pi)) /\ snd (pi_ab pi) - fst (pi_ab pi) <= 9.
+
+Definition no_average (pis : list put_input) : Prop :=
+  forall pi, In pi pis -> m_agg (pi_meta pi) <> average_bytes.
+
+Lemma no_average_matching pis sel : no_average pis -> has_average (st_matching sel (st_after pis)) = false.
+Proof.
+  intros Hna. unfold has_average. destruct (existsb _ _) eqn:E; [|reflexivity]. exfalso.
+  apply existsb_exists in E. destruct E as (ks & Hks & Hb). apply beqb_true in Hb.
+  apply filter_In in Hks. destruct Hks as [Hks _].
+  destruct (Inv2_after pis) as [HS HL]. specialize (HL (fst ks)). rewrite (sorted_lookup _ HS ks Hks) in HL.
+  unfold last_put in HL. destruct (rev (series_puts (sid_key (fst ks)) pis)) as [|pi r] eqn:Er; [destruct HL|].
+  apply (Hna pi); [|rewrite <- HL; exact Hb].
+  assert (Hin : In pi (rev (series_puts (sid_key (fst ks)) pis))) by (rewrite Er; left; reflexivity).
+  apply in_rev, filter_In in Hin. tauto.
+Qed.
+
+Lemma series_read_closed : seg_read_exact_stmt -> forall K p pis a b kb,
+  Forall (exact_put K) pis -> valid_range K a b ->
+  series_read p pis a b kb = sumZ (map (contrib p a b) (series_puts kb pis)).
+Proof.
+  intros Hseg K p pis a b kb Hp Hab. unfold series_read. cbv zeta. rewrite (Hseg K).
+  - unfold ws. rewrite map_map. reflexivity.
+  - unfold ws. apply Forall_forall. intros w Hw. apply in_map_iff in Hw. destruct Hw as (pi & <- & Hpi).
+    apply filter_In in Hpi. destruct Hpi as [Hpi _]. rewrite Forall_forall in Hp. destruct (Hp pi Hpi) as ((Hlt & _) & Hv & _).
+    split; [exact Hv|]. cbn [pi_w w_beta]. apply Z.div_pos; lia.
+  - unfold ws. apply Forall_forall. intros w Hw. apply in_map_iff in Hw. destruct Hw as (pi & <- & Hpi).
+    apply filter_In in Hpi. destruct Hpi as [Hpi _]. rewrite Forall_forall in Hp. destruct (Hp pi Hpi) as (_ & _ & H9). exact H9.
+  - exact Hab.
+Qed.
+
+(* C01_exact *)
+Lemma get_exact : seg_read_exact_stmt -> forall K pis sel from until p,
+  Forall (exact_put K) pis -> key_consistent pis -> no_average pis ->
+  let ab := s_normalize_unix (from, until) in
+  valid_range K (fst ab) (snd ab) ->
+  let S := sumZ (map (contrib p (fst ab) (snd ab)) (filter (fun pi => sel_matches sel (pi_sid pi)) pis)) in
+  match st_get sel from until (st_after pis) with
+  | Some out => Z.of_N (t_self_at p (go_tree out)) = S
+  | None => S = 0
+  end.
+Proof.
+  intros Hseg K pis sel from until p Hp Hc Hna ab Hab S.
+  assert (Hgood : Forall good_put pis) by (eapply Forall_impl; [|exact Hp]; intros pi H; apply H).
+  pose proof (get_sum p pis sel from until Hgood (no_average_matching pis sel Hna)) as H. cbv zeta in H. fold ab in H.
+  replace (sumZ (map (fun ks => series_read p pis (fst ab) (snd ab) (sid_key (fst ks))) (st_matching sel (st_after pis))))
+    with S in H; [exact H|].
+  unfold S. rewrite <- (regroup_puts (contrib p (fst ab) (snd ab)) pis sel Hc). f_equal.
+  apply map_ext. intros ks. symmetry. apply (series_read_closed Hseg K); assumption.
+Qed.
+
+(* the read range only has to be non-empty: the segment-level theorem does not need it inside the block *)
+Lemma series_read_closed' K p pis a b kb : Forall (exact_put K) pis -> a < b ->
+  series_read p pis a b kb = sumZ (map (contrib p a b) (series_puts kb pis)).
+Proof.
+  intros Hp Hab. unfold series_read. cbv zeta.
+  destruct (seg_read_exact K (ws kb p pis) a b) as [H _]; [| exact Hab | | rewrite H; unfold ws; rewrite map_map; reflexivity].
+  - unfold ws. apply Forall_forall. intros w Hw. apply in_map_iff in Hw. destruct Hw as (pi & <- & Hpi).
+    apply filter_In in Hpi. destruct Hpi as [Hpi _]. rewrite Forall_forall in Hp. destruct (Hp pi Hpi) as ((Hlt & _) & Hv & _).
+    split; [exact Hv|]. cbn [pi_w w_beta]. apply Z.div_pos; lia.
+  - unfold ws. apply Forall_forall. intros w Hw. apply in_map_iff in Hw. destruct Hw as (pi & <- & Hpi).
+    apply filter_In in Hpi. destruct Hpi as [Hpi _]. rewrite Forall_forall in Hp. destruct (Hp pi Hpi) as (_ & _ & H9).
+    cbn [pi_w w_a w_b]. lia.
+Qed.
+
+Lemma get_exact_closed K pis sel from until p :
+  Forall (exact_put K) pis -> key_consistent pis -> no_average pis ->
+  let ab := s_normalize_unix (from, until) in
+  fst ab < snd ab ->
+  let S := sumZ (map (contrib p (fst ab) (snd ab)) (filter (fun pi => sel_matches sel (pi_sid pi)) pis)) in
+  match st_get sel from until (st_after pis) with
+  | Some out => Z.of_N (t_self_at p (go_tree out)) = S
+  | None => S = 0
+  end.
+Proof.
+  intros Hp Hc Hna ab Hab S.
+  assert (Hgood : Forall good_put pis) by (eapply Forall_impl; [|exact Hp]; intros pi H; apply H).
+  pose proof (get_sum p pis sel from until Hgood (no_average_matching pis sel Hna)) as H. cbv zeta in H. fold ab in H.
+  replace (sumZ (map (fun ks => series_read p pis (fst ab) (snd ab) (sid_key (fst ks))) (st_matching sel (st_after pis))))
+    with S in H; [exact H|].
+  unfold S. rewrite <- (regroup_puts (contrib p (fst ab) (snd ab)) pis sel Hc). f_equal.
+  apply map_ext. intros ks. symmetry. apply (series_read_closed' K); assumption.
+Qed.
+
+(* metadata: when one series matches, spy name / sample rate / units are those of its latest upload *)
+Lemma get_meta pis sel from until ks out :
+  st_matching sel (st_after pis) = [ks] -> st_get sel from until (st_after pis) = Some out ->
+  exists pi, last_put (sid_key (fst ks)) pis = Some pi /\ go_meta out = pi_meta pi.
+Proof.
+  intros Hm. rewrite st_get_eq. cbv zeta. rewrite Hm. destruct (merge_serial _); [|discriminate].
+  intros [= <-]. cbn [go_meta rev app].
+  destruct (Inv2_after pis) as [HS HL]. specialize (HL (fst ks)).
+  assert (Hin : In ks (st_segs (st_after pis))).
+  { assert (H : In ks (st_matching sel (st_after pis))) by (rewrite Hm; left; reflexivity). apply filter_In in H. tauto. }
+  rewrite (sorted_lookup _ HS ks Hin) in HL. destruct (last_put (sid_key (fst ks)) pis) as [pi|]; [|destruct HL].
+  exists pi. split; [reflexivity|exact HL].
+Qed.
+
+(* histories of ingests and queries run through st_run: queries do not change the state *)
+Definition puts_of (ops : list st_op) : list put_input :=
+  flat_map (fun o => match o with OpPut pi => [pi] | _ => [] end) ops.
+Definition put_or_get (o : st_op) : Prop := match o with OpPut _ | OpGet _ _ _ => True | _ => False end.
+
+Lemma st_run_state ops : Forall put_or_get ops -> forall st,
+  fst (st_run None ops st) = fold_left (fun st pi => fst (st_put None pi st)) (puts_of ops) st.
+Proof.
+  induction 1 as [|o ops Ho _ IH]; intros st; [reflexivity|]. cbn [st_run].
+  destruct (st_step None st o) as [st1 out] eqn:E1. destruct (st_run None ops st1) as [st2 outs] eqn:E2.
+  cbn [fst]. specialize (IH st1). rewrite E2 in IH. cbn [fst] in IH. rewrite IH.
+  destruct o as [pi|sel f u|sel|thr]; try destruct Ho; cbn [st_step] in E1.
+  - destruct (st_put None pi st) as [st' ok] eqn:E3. injection E1 as <- _. cbn [puts_of flat_map app fold_left]. rewrite E3. reflexivity.
+  - injection E1 as <- _. reflexivity.
+Qed.
+
+Lemma st_run_app rt ops1 ops2 st :
+  st_run rt (ops1 ++ ops2) st =
+    (fst (st_run rt ops2 (fst (st_run rt ops1 st))), snd (st_run rt ops1 st) ++ snd (st_run rt ops2 (fst (st_run rt ops1 st)))).
+Proof.
+  revert st. induction ops1 as [|o ops1 IH]; intros st; cbn [app st_run].
+  - cbn [fst snd app]. destruct (st_run rt ops2 st); reflexivity.
+  - destruct (st_step rt st o) as [st1 out]. rewrite IH. destruct (st_run rt ops1 st1) as [st2 outs]. cbn [fst snd].
+    destruct (st_run rt ops2 st2); reflexivity.
+Qed.
+
+Lemma st_run_get ops sel from until : Forall put_or_get ops ->
+  snd (st_run None (ops ++ [OpGet sel from until]) st_init) =
+  snd (st_run None ops st_init) ++ [OutGet (st_get sel from until (st_after (puts_of ops)))].
+Proof.
+  intros H. rewrite st_run_app. cbn [snd]. f_equal. rewrite (st_run_state ops H st_init). reflexivity.
+Qed.
+
+(* ------------------------------------------------------------------------------------------ *)
+(* 'average' series: the divisor is the sum of the write counters of the cover buckets            *)
+
+Definition cover_writes (a b : Z) (matching : list (sid * segment)) : N :=
+  sumN (flat_map (fun ks => map gc_writes (s_get a b (snd ks))) matching).
+
+Lemma parts_writes a b matching trees : sumN (map snd (get_parts a b matching trees)) = cover_writes a b matching.
+Proof.
+  unfold cover_writes, get_parts. f_equal. induction matching as [|ks l IH]; [reflexivity|].
+  cbn [flat_map]. rewrite map_app, IH, map_map. reflexivity.
+Qed.
+
+Lemma get_sum_avg p pis sel from until : Forall good_put pis ->
+  let st := st_after pis in
+  let ab := s_normalize_unix (from, until) in
+  let matching := st_matching sel st in
+  let S := sumZ (map (fun ks => series_read p pis (fst ab) (snd ab) (sid_key (fst ks))) matching) in
+  let W := cover_writes (fst ab) (snd ab) matching in
+  match st_get sel from until st with
+  | Some out => Z.of_N (t_self_at p (go_tree out)) =
+                if (0 <? W)%N && has_average matching then S / Z.of_N W else S
+  | None => S = 0
+  end.
+Proof.
+  intros Hgood st ab matching S W.
+  destruct (Inv_after p pis Hgood) as (HR & HM & HT). destruct (Inv2_after pis) as [HS _]. fold st in HR, HM, HT, HS.
+  assert (HSum : Z.of_N (sumN (map (t_self_at p) (map fst (get_parts (fst ab) (snd ab) matching (st_trees st))))) = S).
+  { rewrite (parts_sum p (fun kb => snd (run_writes (ws kb p pis)))) by exact HM.
+    unfold S. f_equal. apply map_ext_in. intros ks Hks. unfold series_read. cbv zeta. f_equal.
+    apply s_get_root. apply filter_In in Hks. destruct Hks as [Hks _].
+    rewrite <- HR. unfold root_of. rewrite (sorted_lookup _ HS ks Hks). reflexivity. }
+  rewrite st_get_eq. cbv zeta. fold st ab matching. rewrite parts_writes. fold W.
+  destruct (merge_serial (map fst (get_parts (fst ab) (snd ab) matching (st_trees st)))) as [t|] eqn:E.
+  - cbn [go_tree]. pose proof (merge_serial_self_at p _ t (parts_inW _ _ _ _ HT) E) as Ht.
+    destruct ((0 <? W)%N && has_average matching).
+    + rewrite t_self_at_clone, Ht, N.mul_1_r, N2Z.inj_div, HSum. reflexivity.
+    + rewrite Ht. exact HSum.
+  - rewrite <- HSum. destruct (map fst (get_parts _ _ _ _)); [reflexivity|discriminate].
+Qed.
+
+(* D12: one upload of a;b 8 over two slots into an 'average' series.  The read of exactly those two slots
+   is assembled from two 10 s buckets with one write each: the answer is 8 / 2 = 4, although one upload
+   contributed (the read of the enclosing 100 s bucket answers 8). *)
+Definition d12_sid : sid := {| sid_key := [100;49;50;123;125]%N; sid_app := [100;49;50]%N; sid_tags := [] |}.
+Definition d12_put : put_input :=
+  {| pi_sid := d12_sid; pi_from := 1600000000; pi_until := 1600000020;
+     pi_tree := t_insert [97;59;98]%N 8%N t_empty;
+     pi_meta := {| m_spy := []; m_rate := 100%N; m_units := []; m_agg := average_bytes |} |}.
+
+(* "divided by the number of contributing uploads" *)
+Definition uploads_in (sel : sid) (a b : Z) (pis : list put_input) : Z :=
+  Z.of_nat (length (filter (fun pi => sel_matches sel (pi_sid pi) && (0 <? ov (fst (pi_ab pi)) (snd (pi_ab pi)) a b)) pis)).
+
+Lemma average_refuted :
+  exists pis sel from until p out,
+    st_get sel from until (st_after pis) = Some out /\
+    let ab := s_normalize_unix (from, until) in
+    Z.of_N (t_self_at p (go_tree out)) <>
+    sumZ (map (contrib p (fst ab) (snd ab)) (filter (fun pi => sel_matches sel (pi_sid pi)) pis)) / uploads_in sel (fst ab) (snd ab) pis.
+Proof.
+  exists [d12_put], d12_sid, 1600000000, 1600000020, [[97]%N; [98]%N].
+  eexists. split; [vm_compute; reflexivity|]. vm_compute. discriminate.
+Qed.
+
+(* ------------------------------------------------------------------------------------------ *)
+(* a decidable sufficient condition for the hypotheses (used by the non-vacuity examples)        *)
+
+Fixpoint t_forall_self (q : N -> bool) (t : tnode) : bool :=
+  match t with TNode _ s _ ch => q s && forallb (t_forall_self q) ch end.
+
+Lemma t_forall_self_at q : q 0%N = true -> forall p t, t_forall_self q t = true -> q (t_self_at p t) = true.
+Proof.
+  intros H0. induction p as [|l p IH]; intros [n s tot ch] H; cbn [t_forall_self] in H;
+    apply andb_true_iff in H; destruct H as [H1 H2].
+  - exact H1.
+  - unfold t_self_at. cbn [t_at t_ch]. destruct (t_find l ch) as [c|] eqn:E; [|exact H0].
+    rewrite forallb_forall in H2. apply (IH c). apply H2. eapply t_find_in; eauto.
+Qed.
+
+Definition good_putb (pi : put_input) : bool :=
+  (fst (pi_ab pi) <? snd (pi_ab pi)) && t_wfb (pi_tree pi) && beqb (t_name (pi_tree pi)) [] &&
+  t_forall_self (fun s => Z.of_N s mod (snd (pi_ab pi) - fst (pi_ab pi)) =? 0) (pi_tree pi).
+
+Lemma good_putb_ok pi : good_putb pi = true -> good_put pi.
+Proof.
+  unfold good_putb. rewrite !andb_true_iff. intros [[[H1 H2] H3] H4]. split; [lia|]. split.
+  - split; [exact H2|apply beqb_true, H3].
+  - intros p. apply Z.eqb_eq.
+    apply (t_forall_self_at (fun s => Z.of_N s mod (snd (pi_ab pi) - fst (pi_ab pi)) =? 0)); [|exact H4].
+    change (Z.of_N 0) with 0. rewrite Zmod_0_l. reflexivity.
+Qed.
+
+Definition valid_rangeb (K a b : Z) : bool := (a <? b) && (K * pow10 8 <=? a) && (b <=? (K + 1) * pow10 8).
+Lemma valid_rangeb_ok K a b : valid_rangeb K a b = true -> valid_range K a b.
+Proof. unfold valid_rangeb, valid_range. rewrite !andb_true_iff. lia. Qed.
+
+Definition exact_putb (K : Z) (pi : put_input) : bool :=
+  good_putb pi && valid_rangeb K (fst (pi_ab pi)) (snd (pi_ab pi)) && (snd (pi_ab pi) - fst (pi_ab pi) <=? 9).
+Lemma exact_putb_ok K pi : exact_putb K pi = true -> exact_put K pi.
+Proof.
+  unfold exact_putb. rewrite !andb_true_iff. intros [[H1 H2] H3].
+  split; [apply good_putb_ok, H1|]. split; [apply valid_rangeb_ok, H2|lia].
+Qed.
+
+(* ========================================================================================== *)
+(* C11 — delete and retention                                                                  *)
+
+(* an ingest older than the retention threshold is refused and leaves the state untouched *)
+Lemma retention_reject thr pi st : pi_from pi < thr -> st_put (Some thr) pi st = (st, false).
+Proof. intros H. unfold st_put. replace (pi_from pi <? thr) with true by lia. reflexivity. Qed.
+
+Lemma retention_accept thr pi st : thr <= pi_from pi -> st_put (Some thr) pi st = st_put None pi st.
+Proof. intros H. unfold st_put. replace (pi_from pi <? thr) with false by lia. reflexivity. Qed.
+
+(* ---- observational equivalence of states: same table, same tree under every key ---- *)
+Definition st_equiv (st1 st2 : st_state) : Prop :=
+  st_segs st1 = st_segs st2 /\ forall key, tree_lookup key (st_trees st1) = tree_lookup key (st_trees st2).
+
+Definition trees_equiv (t1 t2 : list (tkey * tnode)) : Prop := forall key, tree_lookup key t1 = tree_lookup key t2.
+
+Lemma tree_get_equiv t1 t2 key : trees_equiv t1 t2 -> tree_get key t1 = tree_get key t2.
+Proof. intros H. unfold tree_get. rewrite H. reflexivity. Qed.
+
+Lemma addons_fold_equiv k t1 t2 (addons : list (nat * Z)) : trees_equiv t1 t2 -> forall cl,
+  fold_left (fun cl a => t_merge cl (tree_get (k, fst a, snd a) t1)) addons cl =
+  fold_left (fun cl a => t_merge cl (tree_get (k, fst a, snd a) t2)) addons cl.
+Proof.
+  intros H. induction addons as [|a l IH]; intros cl; cbn [fold_left]; [reflexivity|].
+  rewrite (tree_get_equiv t1 t2 _ H). apply IH.
+Qed.
+
+Lemma put_cb_apply_equiv k prof t1 t2 c : trees_equiv t1 t2 -> trees_equiv (put_cb_apply k prof t1 c) (put_cb_apply k prof t2 c).
+Proof.
+  intros H key. unfold put_cb_apply. rewrite !tree_lookup_store, (tree_get_equiv t1 t2 _ H), (addons_fold_equiv k t1 t2 _ H).
+  destruct (tkey_eqb key _); [reflexivity|apply H].
+Qed.
+
+Lemma put_cbs_equiv k prof cbs : forall t1 t2, trees_equiv t1 t2 ->
+  trees_equiv (fold_left (put_cb_apply k prof) cbs t1) (fold_left (put_cb_apply k prof) cbs t2).
+Proof. induction cbs as [|c cbs IH]; intros t1 t2 H; [exact H|]. cbn [fold_left]. apply IH, put_cb_apply_equiv, H. Qed.
+
+Lemma st_put_equiv rt pi st1 st2 : st_equiv st1 st2 ->
+  st_equiv (fst (st_put rt pi st1)) (fst (st_put rt pi st2)) /\ snd (st_put rt pi st1) = snd (st_put rt pi st2).
+Proof.
+  intros [Hs Ht]. destruct rt as [thr|].
+  - destruct (Z.ltb_spec (pi_from pi) thr) as [H|H].
+    + rewrite !retention_reject by exact H. split; [split; assumption|reflexivity].
+    + rewrite !retention_accept by exact H. rewrite !st_put_none. cbn [fst snd]. split; [|reflexivity].
+      unfold pi_res, pi_seg0. rewrite Hs. split; cbn [st_segs st_trees]; [reflexivity|]. exact (put_cbs_equiv _ _ _ _ _ Ht).
+  - rewrite !st_put_none. cbn [fst snd]. split; [|reflexivity].
+    unfold pi_res, pi_seg0. rewrite Hs. split; cbn [st_segs st_trees]; [reflexivity|]. exact (put_cbs_equiv _ _ _ _ _ Ht).
+Qed.
+
+Lemma get_parts_equiv a b matching t1 t2 : trees_equiv t1 t2 -> get_parts a b matching t1 = get_parts a b matching t2.
+Proof.
+  intros H. unfold get_parts. induction matching as [|ks l IH]; [reflexivity|]. cbn [flat_map]. rewrite IH. f_equal.
+  apply map_ext. intros c. rewrite (tree_get_equiv t1 t2 _ H). reflexivity.
+Qed.
+
+Lemma st_get_equiv sel from until st1 st2 : st_equiv st1 st2 -> st_get sel from until st1 = st_get sel from until st2.
+Proof.
+  intros [Hs Ht]. rewrite !st_get_eq. cbv zeta. unfold st_matching. rewrite Hs.
+  rewrite (get_parts_equiv _ _ _ _ _ Ht). reflexivity.
+Qed.
+
+Lemma tree_remove_equiv k t1 t2 : trees_equiv t1 t2 -> trees_equiv (tree_remove k t1) (tree_remove k t2).
+Proof. intros H key. rewrite !tree_lookup_remove. destruct (tkey_eqb k key); [reflexivity|apply H]. Qed.
+
+Lemma tree_removes_equiv {A} (f : A -> tkey) cbs : forall t1 t2, trees_equiv t1 t2 ->
+  trees_equiv (fold_left (fun tr c => tree_remove (f c) tr) cbs t1) (fold_left (fun tr c => tree_remove (f c) tr) cbs t2).
+Proof. induction cbs as [|c cbs IH]; intros t1 t2 H; [exact H|]. cbn [fold_left]. apply IH, tree_remove_equiv, H. Qed.
+
+Lemma st_delete_series_equiv st1 st2 ks : st_equiv st1 st2 -> st_equiv (st_delete_series st1 ks) (st_delete_series st2 ks).
+Proof.
+  intros [Hs Ht]. unfold st_delete_series. destruct (s_delete_before_unix max_time_unix (snd ks)) as [[s' cbs] del].
+  split; cbn [st_segs st_trees]; [rewrite Hs; reflexivity|].
+  exact (tree_removes_equiv (fun c => (sid_key (fst ks), fst c, snd c)) _ _ _ Ht).
+Qed.
+
+
+(* ---- what st_delete does to the lookups ---- *)
+Definition del_cbs (s : segment) : list (nat * Z) := snd (fst (s_delete_before_unix max_time_unix s)).
+Definition cb_hits (l : nat) (t : Z) (cbs : list (nat * Z)) : bool := existsb (fun c => Nat.eqb (fst c) l && (snd c =? t)) cbs.
+
+Lemma seg_lookup_remove k k0 l :
+  seg_lookup k (seg_remove k0 l) = if beqb (sid_key k0) (sid_key k) then None else seg_lookup k l.
+Proof.
+  unfold seg_remove. induction l as [|[k1 s1] l IH]; cbn [filter seg_lookup fst].
+  - destruct (beqb (sid_key k0) (sid_key k)); reflexivity.
+  - unfold sid_eqb at 1. destruct (beqb (sid_key k0) (sid_key k1)) eqn:E; cbn [negb].
+    + rewrite IH. apply beqb_true in E. unfold sid_eqb. rewrite <- E. rewrite (beqb_sym (sid_key k) (sid_key k0)).
+      destruct (beqb (sid_key k0) (sid_key k)); reflexivity.
+    + cbn [seg_lookup]. rewrite IH. unfold sid_eqb. destruct (beqb (sid_key k) (sid_key k1)) eqn:E1; [|reflexivity].
+      apply beqb_true in E1. rewrite E1, E. reflexivity.
+Qed.
+
+Lemma tree_lookup_removes kb cbs : forall tr kb' l t,
+  tree_lookup (kb', l, t) (fold_left (fun tr c => tree_remove (kb, fst c, snd c) tr) cbs tr) =
+  if beqb kb kb' && cb_hits l t cbs then None else tree_lookup (kb', l, t) tr.
+Proof.
+  induction cbs as [|c cbs IH]; intros tr kb' l t; cbn [fold_left].
+  - unfold cb_hits. cbn [existsb]. rewrite andb_false_r. reflexivity.
+  - rewrite IH, tree_lookup_remove. unfold cb_hits. cbn [existsb]. unfold tkey_eqb.
+    destruct (beqb kb kb'); cbn [andb]; [|reflexivity].
+    destruct (Nat.eqb (fst c) l && (snd c =? t)); cbn [orb]; [|reflexivity].
+    destruct (existsb _ cbs); reflexivity.
+Qed.
+
+Lemma st_delete_series_eq st ks :
+  st_delete_series st ks =
+    {| st_segs := seg_remove (fst ks) (st_segs st);
+       st_trees := fold_left (fun tr c => tree_remove (sid_key (fst ks), fst c, snd c) tr) (del_cbs (snd ks)) (st_trees st) |}.
+Proof. unfold st_delete_series, del_cbs. destruct (s_delete_before_unix max_time_unix (snd ks)) as [[s' cbs] d]. reflexivity. Qed.
+
+Definition ms_has (ms : list (sid * segment)) (kb : bytes) : bool := existsb (fun ks => beqb (sid_key (fst ks)) kb) ms.
+Definition ms_hits (ms : list (sid * segment)) (kb : bytes) (l : nat) (t : Z) : bool :=
+  existsb (fun ks => beqb (sid_key (fst ks)) kb && cb_hits l t (del_cbs (snd ks))) ms.
+
+Lemma delete_fold ms : forall st,
+  let st' := fold_left st_delete_series ms st in
+  (forall k, seg_lookup k (st_segs st') = if ms_has ms (sid_key k) then None else seg_lookup k (st_segs st)) /\
+  (forall kb l t, tree_lookup (kb, l, t) (st_trees st') = if ms_hits ms kb l t then None else tree_lookup (kb, l, t) (st_trees st)) /\
+  st_segs st' = filter (fun e => negb (ms_has ms (sid_key (fst e)))) (st_segs st).
+Proof.
+  induction ms as [|ks ms IH]; intros st; cbn zeta.
+  - cbn [fold_left ms_has ms_hits existsb]. repeat split. induction (st_segs st) as [|e l IHl]; [reflexivity|]. cbn [filter negb]. f_equal. exact IHl.
+  - cbn [fold_left]. destruct (IH (st_delete_series st ks)) as (H1 & H2 & H3). cbn zeta in H1, H2, H3.
+    set (stf := fold_left st_delete_series ms (st_delete_series st ks)) in *.
+    rewrite st_delete_series_eq in H1, H2, H3. cbn [st_segs st_trees] in H1, H2, H3. split; [|split].
+    + intros k. rewrite H1, seg_lookup_remove. unfold ms_has. cbn [existsb].
+      destruct (beqb (sid_key (fst ks)) (sid_key k)); cbn [orb]; [destruct (existsb _ ms); reflexivity|reflexivity].
+    + intros kb l t. rewrite H2, tree_lookup_removes. unfold ms_hits. cbn [existsb].
+      destruct (beqb (sid_key (fst ks)) kb && cb_hits l t (del_cbs (snd ks))); cbn [orb]; [destruct (existsb _ ms); reflexivity|reflexivity].
+    + rewrite H3. unfold seg_remove. clear. induction (st_segs st) as [|e l IHl]; [reflexivity|]. cbn [filter].
+      unfold ms_has at 2. cbn [existsb]. unfold sid_eqb.
+      destruct (beqb (sid_key (fst ks)) (sid_key (fst e))); cbn [negb orb]; [exact IHl|].
+      cbn [filter]. fold (ms_has ms (sid_key (fst e))). destruct (ms_has ms (sid_key (fst e))); cbn [negb]; [exact IHl|]. f_equal. exact IHl.
+Qed.
+
+(* ---- two states agree on everything that concerns the series with key kb ---- *)
+Definition trees_agree (kb : bytes) (t1 t2 : list (tkey * tnode)) : Prop :=
+  forall l t, tree_lookup (kb, l, t) t1 = tree_lookup (kb, l, t) t2.
+Definition agree_on (kb : bytes) (st1 st2 : st_state) : Prop :=
+  (forall k, sid_key k = kb -> seg_lookup k (st_segs st1) = seg_lookup k (st_segs st2)) /\
+  trees_agree kb (st_trees st1) (st_trees st2).
+
+Lemma agree_refl kb st : agree_on kb st st.
+Proof. split; [intros; reflexivity|intros l t; reflexivity]. Qed.
+Lemma agree_sym kb s1 s2 : agree_on kb s1 s2 -> agree_on kb s2 s1.
+Proof. intros [H1 H2]. split; [intros k E; symmetry; apply H1, E|intros l t; symmetry; apply H2]. Qed.
+Lemma agree_trans kb s1 s2 s3 : agree_on kb s1 s2 -> agree_on kb s2 s3 -> agree_on kb s1 s3.
+Proof. intros [H1 H2] [G1 G2]. split; [intros k E; rewrite H1, G1 by exact E; reflexivity|intros l t; rewrite H2, G2; reflexivity]. Qed.
+
+Lemma tree_get_agree kb t1 t2 l t : trees_agree kb t1 t2 -> tree_get (kb, l, t) t1 = tree_get (kb, l, t) t2.
+Proof. intros H. unfold tree_get. rewrite H. reflexivity. Qed.
+
+Lemma addons_fold_agree kb t1 t2 (addons : list (nat * Z)) : trees_agree kb t1 t2 -> forall cl,
+  fold_left (fun cl a => t_merge cl (tree_get (kb, fst a, snd a) t1)) addons cl =
+  fold_left (fun cl a => t_merge cl (tree_get (kb, fst a, snd a) t2)) addons cl.
+Proof.
+  intros H. induction addons as [|a l IH]; intros cl; cbn [fold_left]; [reflexivity|].
+  rewrite (tree_get_agree kb t1 t2 _ _ H). apply IH.
+Qed.
+
+Lemma put_cbs_agree kb prof cbs : forall t1 t2, trees_agree kb t1 t2 ->
+  trees_agree kb (fold_left (put_cb_apply kb prof) cbs t1) (fold_left (put_cb_apply kb prof) cbs t2).
+Proof.
+  induction cbs as [|c cbs IH]; intros t1 t2 H; [exact H|]. cbn [fold_left]. apply IH.
+  intros l t. unfold put_cb_apply. rewrite !tree_lookup_store, (tree_get_agree kb t1 t2 _ _ H), (addons_fold_agree kb t1 t2 _ H).
+  destruct (tkey_eqb _ _); [reflexivity|apply H].
+Qed.
+
+Lemma put_cbs_lookup_other k kb prof cbs l t : k <> kb -> forall trees,
+  tree_lookup (kb, l, t) (fold_left (put_cb_apply k prof) cbs trees) = tree_lookup (kb, l, t) trees.
+Proof.
+  intros Hk. induction cbs as [|c cbs IH]; intros trees; [reflexivity|]. cbn [fold_left]. rewrite IH.
+  unfold put_cb_apply. rewrite tree_lookup_store, tkey_eqb_false; [reflexivity|congruence].
+Qed.
+
+Lemma put_agree_same pi st1 st2 : agree_on (sid_key (pi_sid pi)) st1 st2 ->
+  agree_on (sid_key (pi_sid pi)) (fst (st_put None pi st1)) (fst (st_put None pi st2)).
+Proof.
+  intros [Hs Ht]. rewrite !st_put_none. cbn [fst].
+  assert (Hres : pi_res pi st1 = pi_res pi st2) by (unfold pi_res, pi_seg0; rewrite (Hs (pi_sid pi) eq_refl); reflexivity).
+  split; cbn [st_segs st_trees].
+  - intros k Ek. rewrite !seg_lookup_store, Hres, (Hs k Ek). reflexivity.
+  - rewrite Hres. apply put_cbs_agree, Ht.
+Qed.
+
+Lemma put_agree_other pi st kb : sid_key (pi_sid pi) <> kb -> agree_on kb (fst (st_put None pi st)) st.
+Proof.
+  intros Hk. rewrite st_put_none. cbn [fst]. split; cbn [st_segs st_trees].
+  - intros k Ek. rewrite seg_lookup_store. rewrite Ek.
+    destruct (beqb kb (sid_key (pi_sid pi))) eqn:E; [apply beqb_true in E; congruence|reflexivity].
+  - intros l t. apply put_cbs_lookup_other, Hk.
+Qed.
+
+Lemma st_after_snoc pis pi : st_after (pis ++ [pi]) = fst (st_put None pi (st_after pis)).
+Proof. unfold st_after. rewrite fold_left_app. reflexivity. Qed.
+
+(* the lookups concerning series kb only depend on the uploads into kb *)
+Lemma agree_after kb pis : agree_on kb (st_after pis) (st_after (series_puts kb pis)).
+Proof.
+  induction pis as [|pi pis IH] using rev_ind; [apply agree_refl|].
+  unfold series_puts. rewrite filter_app. cbn [filter]. fold (series_puts kb pis). rewrite st_after_snoc.
+  destruct (beqb (sid_key (pi_sid pi)) kb) eqn:E.
+  - apply beqb_true in E. subst kb. rewrite st_after_snoc. apply put_agree_same, IH.
+  - rewrite app_nil_r. eapply agree_trans; [apply put_agree_other|exact IH].
+    intros Hk. rewrite Hk, beqb_refl in E. discriminate.
+Qed.
+
+(* ---- consistency: the uploads with one key all match a selector or none does ---- *)
+Lemma filter_comm {A} (f g : A -> bool) l : filter f (filter g l) = filter g (filter f l).
+Proof.
+  induction l as [|x l IH]; [reflexivity|]. cbn [filter].
+  destruct (g x) eqn:Eg, (f x) eqn:Ef; cbn [filter]; rewrite ?Eg, ?Ef, IH; reflexivity.
+Qed.
+
+Lemma filter_all {A} (f : A -> bool) l : (forall x, In x l -> f x = true) -> filter f l = l.
+Proof.
+  induction l as [|x l IH]; intros H; [reflexivity|]. cbn [filter]. rewrite (H x (or_introl eq_refl)). f_equal.
+  apply IH. intros y Hy. apply H. right. exact Hy.
+Qed.
+
+Lemma filter_none {A} (f : A -> bool) l : (forall x, In x l -> f x = false) -> filter f l = [].
+Proof.
+  induction l as [|x l IH]; intros H; [reflexivity|]. cbn [filter]. rewrite (H x (or_introl eq_refl)).
+  apply IH. intros y Hy. apply H. right. exact Hy.
+Qed.
+
+Definition keep (sel : sid) (pi : put_input) : bool := negb (sel_matches sel (pi_sid pi)).
+
+Lemma series_same_sid pis kb pi pi' : key_consistent pis ->
+  In pi (series_puts kb pis) -> In pi' (series_puts kb pis) -> pi_sid pi = pi_sid pi'.
+Proof.
+  intros Hc H1 H2. apply filter_In in H1, H2. destruct H1 as [H1 E1], H2 as [H2 E2].
+  apply beqb_true in E1, E2. apply Hc; congruence.
+Qed.
+
+Lemma series_puts_filter kb f pis : series_puts kb (filter f pis) = filter f (series_puts kb pis).
+Proof. unfold series_puts. apply filter_comm. Qed.
+
+Lemma series_filter_cases sel pis kb : key_consistent pis ->
+  (series_puts kb (filter (keep sel) pis) = series_puts kb pis /\ forall pi, In pi (series_puts kb pis) -> keep sel pi = true) \/
+  (series_puts kb (filter (keep sel) pis) = [] /\ forall pi, In pi (series_puts kb pis) -> keep sel pi = false).
+Proof.
+  intros Hc. rewrite !series_puts_filter.
+  destruct (series_puts kb pis) as [|pi0 L] eqn:EL; [left; split; [reflexivity|intros ? []]|].
+  assert (Hsame : forall pi, In pi (pi0 :: L) -> keep sel pi = keep sel pi0).
+  { intros pi Hpi. unfold keep. rewrite (series_same_sid pis kb pi pi0 Hc); [reflexivity| |]; rewrite EL; [exact Hpi|left; reflexivity]. }
+  destruct (keep sel pi0) eqn:E0.
+  - left. split; [apply filter_all|]; intros pi Hpi; rewrite (Hsame pi Hpi); reflexivity.
+  - right. split; [apply filter_none|]; intros pi Hpi; rewrite (Hsame pi Hpi); reflexivity.
+Qed.
+
+(* ---- the invariant that makes Delete complete: every tree stored under a key of a live series belongs
+   to a node the delete walk of that series' segment reports ---- *)
+Definition keys_are_nodes (st : st_state) : Prop :=
+  forall ks l t tr, In ks (st_segs st) -> tree_lookup (sid_key (fst ks), l, t) (st_trees st) = Some tr ->
+                    cb_hits l t (del_cbs (snd ks)) = true.
+
+Lemma st_init_lookups kb : (forall k, seg_lookup k (st_segs st_init) = None) /\ forall l t, tree_lookup (kb, l, t) (st_trees st_init) = None.
+Proof. split; reflexivity. Qed.
+
+Lemma ms_has_in ms kb : ms_has ms kb = true <-> exists ks, In ks ms /\ sid_key (fst ks) = kb.
+Proof.
+  unfold ms_has. rewrite existsb_exists. split; intros (ks & H1 & H2); exists ks; split; auto; apply beqb_true; auto.
+Qed.
+
+Lemma delete_agree sel pis kb : key_consistent pis -> keys_are_nodes (st_after pis) ->
+  agree_on kb (st_delete sel (st_after pis)) (st_after (filter (keep sel) pis)).
+Proof.
+  intros Hc HK. set (A := st_after pis). set (ms := st_matching sel A).
+  destruct (delete_fold ms A) as (D1 & D2 & _). cbn zeta in D1, D2. fold (st_delete sel A) in D1, D2.
+  change (fold_left st_delete_series ms A) with (st_delete sel A) in D1, D2.
+  destruct (Inv2_after pis) as [HS HL]. fold A in HS, HL.
+  (* the right-hand side only sees the kept uploads into kb *)
+  eapply agree_trans; [|apply agree_sym, agree_after].
+  destruct (ms_has ms kb) eqn:Ehas.
+  - (* the series is deleted *)
+    apply ms_has_in in Ehas. destruct Ehas as (ks & Hks & Ekb). unfold ms, st_matching in Hks.
+    apply filter_In in Hks. destruct Hks as [Hks Hmatch].
+    assert (Hnone : series_puts kb (filter (keep sel) pis) = []).
+    { destruct (series_filter_cases sel pis kb Hc) as [[_ Hall]|[H _]]; [|exact H]. exfalso.
+      destruct (st_after_sids pis ks Hks) as (pi & Hpi & Esid).
+      assert (Hin : In pi (series_puts kb pis)) by (apply filter_In; split; [exact Hpi|rewrite <- Esid, Ekb; apply beqb_refl]).
+      specialize (Hall pi Hin). unfold keep in Hall. rewrite <- Esid, Hmatch in Hall. discriminate. }
+    rewrite Hnone. split.
+    + intros k Ek. rewrite D1. replace (ms_has ms (sid_key k)) with true; [reflexivity|].
+      symmetry. apply ms_has_in. exists ks. split; [apply filter_In; split; assumption|congruence].
+    + intros l t. rewrite D2. cbn [st_after fold_left st_init st_trees tree_lookup].
+      destruct (ms_hits ms kb l t) eqn:Eh; [reflexivity|].
+      destruct (tree_lookup (kb, l, t) (st_trees A)) as [tr|] eqn:El; [|reflexivity]. exfalso.
+      rewrite <- Ekb in El. pose proof (HK ks l t tr Hks El) as Hhit.
+      unfold ms_hits in Eh. assert (existsb (fun ks0 => beqb (sid_key (fst ks0)) kb && cb_hits l t (del_cbs (snd ks0))) ms = true); [|congruence].
+      apply existsb_exists. exists ks. split; [apply filter_In; split; assumption|]. rewrite Ekb, beqb_refl, Hhit. reflexivity.
+  - (* the series is not touched by the delete *)
+    assert (Hnh : forall l t, ms_hits ms kb l t = false).
+    { intros l t. unfold ms_hits. destruct (existsb _ ms) eqn:E; [|reflexivity]. apply existsb_exists in E.
+      destruct E as (ks & Hks & Hb). apply andb_true_iff in Hb. destruct Hb as [Hb _].
+      assert (ms_has ms kb = true) by (apply ms_has_in; exists ks; split; [exact Hks|apply beqb_true, Hb]). congruence. }
+    assert (Hleft : agree_on kb (st_delete sel A) A).
+    { split; [intros k Ek; rewrite D1, Ek, Ehas; reflexivity|intros l t; rewrite D2, Hnh; reflexivity]. }
+    eapply agree_trans; [exact Hleft|]. eapply agree_trans; [apply agree_after|].
+    destruct (series_filter_cases sel pis kb Hc) as [[H _]|[H Hall]]; [rewrite H; apply agree_refl|].
+    (* all uploads into kb match the selector: then the table entry of kb would have been deleted *)
+    destruct (series_puts kb pis) as [|pi0 L] eqn:EL; [rewrite H; apply agree_refl|]. exfalso.
+    assert (Hpi0 : In pi0 pis /\ sid_key (pi_sid pi0) = kb).
+    { assert (Hin : In pi0 (series_puts kb pis)) by (rewrite EL; left; reflexivity).
+      apply filter_In in Hin. destruct Hin as [Hin Hb]. apply beqb_true in Hb. auto. }
+    destruct Hpi0 as [Hpi0 Ek0].
+    specialize (HL (pi_sid pi0)). rewrite Ek0 in HL. unfold last_put in HL. rewrite EL in HL.
+    destruct (seg_lookup (pi_sid pi0) (st_segs A)) as [s|] eqn:Es.
+    + destruct (seg_lookup_in _ _ _ Es) as (ks & Hks & Hk & _).
+      destruct (st_after_sids pis ks Hks) as (pi & Hpi & Esid).
+      assert (Hm : sel_matches sel (fst ks) = true).
+      { assert (Hin : In pi (pi0 :: L)) by (rewrite <- EL; apply filter_In; split; [exact Hpi|rewrite <- Esid, Hk, Ek0; apply beqb_refl]).
+        specialize (Hall pi Hin). unfold keep in Hall. rewrite Esid. destruct (sel_matches sel (pi_sid pi)); [reflexivity|discriminate]. }
+      assert (ms_has ms kb = true); [|congruence].
+      apply ms_has_in. exists ks. split; [apply filter_In; split; assumption|congruence].
+    + destruct (rev (pi0 :: L)) eqn:Er; [|destruct HL].
+      assert (Hin : In pi0 (rev (pi0 :: L))) by (apply in_rev; rewrite rev_involutive; left; reflexivity). rewrite Er in Hin. destruct Hin.
+Qed.
+
+(* ---- from agreement on every series to equivalence of the states ---- *)
+Lemma lookup_none_gt k l : Forall (fun ks' => bcmp (sid_key k) (sid_key (fst ks')) = Lt) l -> seg_lookup k l = None.
+Proof.
+  induction 1 as [|ks l H _ IH]; [reflexivity|]. destruct ks as [k1 s1]. cbn [seg_lookup]. unfold sid_eqb.
+  cbn [fst] in H. rewrite (beqb_false_lt _ _ H). exact IH.
+Qed.
+
+Lemma segs_ext l1 : forall l2, segs_sorted l1 -> segs_sorted l2 ->
+  (forall k, seg_lookup k l1 = seg_lookup k l2) ->
+  (forall e1 e2, In e1 l1 -> In e2 l2 -> sid_key (fst e1) = sid_key (fst e2) -> fst e1 = fst e2) -> l1 = l2.
+Proof.
+  induction l1 as [|[k1 s1] l1 IH]; intros [|[k2 s2] l2] S1 S2 HL HS.
+  - reflexivity.
+  - specialize (HL k2). cbn [seg_lookup] in HL. unfold sid_eqb in HL. rewrite beqb_refl in HL. discriminate.
+  - specialize (HL k1). cbn [seg_lookup] in HL. unfold sid_eqb in HL. rewrite beqb_refl in HL. discriminate.
+  - cbn [segs_sorted fst] in S1, S2. destruct S1 as [G1 S1], S2 as [G2 S2].
+    destruct (bcmp (sid_key k1) (sid_key k2)) eqn:E.
+    + apply bcmp_eq in E.
+      assert (Ek : k1 = k2) by (apply (HS (k1, s1) (k2, s2)); [left; reflexivity|left; reflexivity|exact E]). subst k2.
+      assert (Es : s1 = s2).
+      { specialize (HL k1). cbn [seg_lookup] in HL. unfold sid_eqb in HL. rewrite beqb_refl in HL. congruence. }
+      subst s2. f_equal. apply IH; try assumption.
+      * intros k. specialize (HL k). cbn [seg_lookup] in HL. unfold sid_eqb in HL.
+        destruct (beqb (sid_key k) (sid_key k1)) eqn:Ek; [|exact HL].
+        apply beqb_true in Ek. rewrite !lookup_none_gt; [reflexivity| |]; rewrite Ek; assumption.
+      * intros e1 e2 H1 H2. apply HS; right; assumption.
+    + exfalso. specialize (HL k1). cbn [seg_lookup] in HL. unfold sid_eqb in HL. rewrite beqb_refl in HL.
+      rewrite (beqb_false_lt _ _ E), lookup_none_gt in HL; [discriminate|].
+      eapply Forall_impl; [|exact G2]. cbn. intros ks' H. eapply bcmp_lt_trans; eauto.
+    + exfalso. apply bcmp_lt_gt in E. specialize (HL k2). cbn [seg_lookup] in HL. unfold sid_eqb in HL. rewrite beqb_refl in HL.
+      rewrite (beqb_false_lt _ _ E), lookup_none_gt in HL; [discriminate|].
+      eapply Forall_impl; [|exact G1]. cbn. intros ks' H. eapply bcmp_lt_trans; eauto.
+Qed.
+
+Lemma filter_sorted f l : segs_sorted l -> segs_sorted (filter f l).
+Proof.
+  induction l as [|ks l IH]; intros H; [exact I|]. cbn [segs_sorted] in H. destruct H as [H1 H2]. cbn [filter].
+  destruct (f ks); [|apply IH, H2]. cbn [segs_sorted]. split; [|apply IH, H2].
+  apply Forall_forall. intros x Hx. apply filter_In in Hx. rewrite Forall_forall in H1. apply H1, Hx.
+Qed.
+
+(* C11_delete, state form: deleting by selector leaves exactly the state in which the matching series
+   were never ingested (same table; the same tree, or none, under every key) *)
+Lemma delete_equiv sel pis : key_consistent pis -> keys_are_nodes (st_after pis) ->
+  st_equiv (st_delete sel (st_after pis)) (st_after (filter (keep sel) pis)).
+Proof.
+  intros Hc HK. split.
+  - destruct (delete_fold (st_matching sel (st_after pis)) (st_after pis)) as (_ & _ & D3). cbn zeta in D3.
+    change (fold_left st_delete_series (st_matching sel (st_after pis)) (st_after pis)) with (st_delete sel (st_after pis)) in D3.
+    destruct (Inv2_after pis) as [HS _]. destruct (Inv2_after (filter (keep sel) pis)) as [HS' _].
+    apply segs_ext.
+    + rewrite D3. apply filter_sorted, HS.
+    + exact HS'.
+    + intros k. destruct (delete_agree sel pis (sid_key k) Hc HK) as [H _]. apply H. reflexivity.
+    + intros e1 e2 H1 H2 Ek. rewrite D3 in H1. apply filter_In in H1. destruct H1 as [H1 _].
+      destruct (st_after_sids pis e1 H1) as (p1 & Hp1 & E1). destruct (st_after_sids _ e2 H2) as (p2 & Hp2 & E2).
+      apply filter_In in Hp2. destruct Hp2 as [Hp2 _]. rewrite E1, E2. apply Hc; congruence.
+  - intros [[kb l] t]. destruct (delete_agree sel pis kb Hc HK) as [_ H]. apply H.
+Qed.
+
+(* every later operation sees equivalent states alike *)
+Lemma st_retention_series_equiv thr st1 st2 ks : st_equiv st1 st2 ->
+  st_equiv (st_retention_series thr st1 ks) (st_retention_series thr st2 ks).
+Proof.
+  intros [Hs Ht]. unfold st_retention_series. destruct (s_delete_before_unix thr (snd ks)) as [[s' cbs] del].
+  pose proof (tree_removes_equiv (fun c => (sid_key (fst ks), fst c, snd c)) cbs _ _ Ht) as H.
+  destruct del; (split; cbn [st_segs st_trees]; [rewrite Hs; reflexivity|exact H]).
+Qed.
+
+Lemma fold_equiv {A} (f : st_state -> A -> st_state) (l : list A) :
+  (forall st1 st2 x, st_equiv st1 st2 -> st_equiv (f st1 x) (f st2 x)) ->
+  forall st1 st2, st_equiv st1 st2 -> st_equiv (fold_left f l st1) (fold_left f l st2).
+Proof. intros Hf. induction l as [|x l IH]; intros st1 st2 H; [exact H|]. cbn [fold_left]. apply IH, Hf, H. Qed.
+
+Lemma st_step_equiv rt st1 st2 o : st_equiv st1 st2 ->
+  st_equiv (fst (st_step rt st1 o)) (fst (st_step rt st2 o)) /\ snd (st_step rt st1 o) = snd (st_step rt st2 o).
+Proof.
+  intros H. destruct o as [pi|sel f u|sel|thr]; cbn [st_step].
+  - destruct (st_put_equiv rt pi st1 st2 H) as [H1 H2].
+    destruct (st_put rt pi st1) as [a1 b1], (st_put rt pi st2) as [a2 b2]. cbn [fst snd] in *. split; [exact H1|congruence].
+  - cbn [fst snd]. split; [exact H|]. rewrite (st_get_equiv sel f u st1 st2 H). reflexivity.
+  - cbn [fst snd]. split; [|reflexivity]. unfold st_delete. destruct H as [Hs Ht]. rewrite Hs.
+    apply fold_equiv; [intros; apply st_delete_series_equiv; assumption|split; assumption].
+  - cbn [fst snd]. split; [|reflexivity]. unfold st_retention. destruct H as [Hs Ht]. rewrite Hs.
+    apply fold_equiv; [intros; apply st_retention_series_equiv; assumption|split; assumption].
+Qed.
+
+Lemma st_run_equiv rt ops : forall st1 st2, st_equiv st1 st2 ->
+  st_equiv (fst (st_run rt ops st1)) (fst (st_run rt ops st2)) /\ snd (st_run rt ops st1) = snd (st_run rt ops st2).
+Proof.
+  induction ops as [|o ops IH]; intros st1 st2 H; [split; [exact H|reflexivity]|]. cbn [st_run].
+  destruct (st_step_equiv rt st1 st2 o H) as [H1 H2].
+  destruct (st_step rt st1 o) as [a1 o1], (st_step rt st2 o) as [a2 o2]. cbn [fst snd] in H1, H2. subst o2.
+  destruct (IH a1 a2 H1) as [G1 G2].
+  destruct (st_run rt ops a1) as [b1 r1], (st_run rt ops a2) as [b2 r2]. cbn [fst snd] in *. split; [exact G1|congruence].
+Qed.
